@@ -338,3 +338,1557 @@ Proof.
   - intros H t Ht. apply agg_err in Ht. destruct Ht as [l1 [l2 [-> _]]].
     rewrite forallb_app in H. apply andb_true_iff in H. destruct H as [_ H]. cbn in H. discriminate.
 Qed.
+
+(* ====================================================================================== *)
+(* 2. the connection pool: structural invariant                                          *)
+(* ====================================================================================== *)
+Open Scope nat_scope.
+
+
+Ltac ssimpl :=
+  cbn [cur cur_uid next unext ph alive acked told wire pending log
+       set_cur set_next set_unext set_ph set_alive set_acked set_told set_wire set_pending set_log
+       uid uks cov stat set_stat] in *.
+
+Lemma upd_same {A} (f : nat -> A) c v : upd f c v c = v.
+Proof. unfold upd. rewrite Nat.eqb_refl. reflexivity. Qed.
+Lemma upd_other {A} (f : nat -> A) c v x : x <> c -> upd f c v x = f x.
+Proof. intros H. unfold upd. destruct (Nat.eqb x c) eqn:E; [apply Nat.eqb_eq in E; contradiction|reflexivity]. Qed.
+
+Lemma find_use_some l u r : find_use l u = Some r -> In r l /\ uid r = u.
+Proof.
+  unfold find_use. intros H. apply find_some in H. destruct H as [H1 H2].
+  apply Nat.eqb_eq in H2. split; assumption.
+Qed.
+
+Definition same_shape (r r' : use_rec) : Prop := uid r' = uid r /\ uks r' = uks r /\ cov r' = cov r.
+
+Lemma same_shape_refl r : same_shape r r.
+Proof. repeat split. Qed.
+Lemma same_shape_set_stat r c v : same_shape r (set_stat r c v).
+Proof. repeat split. Qed.
+
+Lemma in_upd_use l u f r' :
+  In r' (upd_use l u f) -> exists r, In r l /\ r' = (if Nat.eqb (uid r) u then f r else r).
+Proof. unfold upd_use. intros H. apply in_map_iff in H. destruct H as [r [<- Hr]]. exists r. split; [exact Hr|reflexivity]. Qed.
+
+Lemma in_drop_use l u r : In r (drop_use l u) <-> In r l /\ uid r <> u.
+Proof.
+  unfold drop_use. rewrite filter_In. rewrite negb_true_iff, Nat.eqb_neq. reflexivity.
+Qed.
+
+Lemma mem_In c l : mem c l = true <-> In c l.
+Proof.
+  unfold mem. rewrite existsb_exists. split.
+  - intros [x [Hx He]]. apply Nat.eqb_eq in He. subst. exact Hx.
+  - intros H. exists c. split; [exact H|apply Nat.eqb_refl].
+Qed.
+
+Lemma in_pool_conns s c : In c (pool_conns s) <-> (c < next s /\ ph s c = InPool).
+Proof.
+  unfold pool_conns. rewrite filter_In, in_seq. split.
+  - intros [H1 H2]. split; [lia|]. destruct (ph s c); try discriminate. reflexivity.
+  - intros [H1 H2]. split; [lia|]. rewrite H2. reflexivity.
+Qed.
+
+Definition pre_pool (p : phase) : Prop :=
+  match p with Unborn | Opening | Setting _ => True | _ => False end.
+
+Record GInv (s : pool) : Prop := mkG {
+  g_unborn : forall c, next s <= c -> ph s c = Unborn;
+  g_pre : forall c, pre_pool (ph s c) -> wire s c = [] /\ forall r, In r (pending s) -> ~ In c (cov r);
+  g_wire : forall c u k, In (u, k) (wire s c) -> u < unext s;
+  g_log : forall u a, In (u, a) (log s) -> u < unext s;
+  g_uid : forall r, In r (pending s) -> uid r < unext s
+}.
+
+Lemma GInv_init k0 : GInv (init k0).
+Proof.
+  constructor; cbn; intros; try contradiction; try reflexivity.
+  split; [reflexivity|]. intros r [].
+Qed.
+
+(* a step that leaves wire/log/unext alone, maps pending shape-preservingly, and only moves
+   phases "forward" *)
+Lemma GInv_phase_change s f :
+  GInv s ->
+  (forall c, pre_pool (f c) -> pre_pool (ph s c)) ->
+  (forall c, next s <= c -> f c = Unborn) ->
+  GInv (set_ph s f).
+Proof.
+  intros G Hf Hn. constructor; ssimpl.
+  - exact Hn.
+  - intros c Hc. apply (g_pre s G). apply Hf, Hc.
+  - apply (g_wire s G).
+  - apply (g_log s G).
+  - apply (g_uid s G).
+Qed.
+
+Lemma resharded_pre f c : pre_pool (resharded f c) -> pre_pool (f c).
+Proof. unfold resharded. destruct (f c); cbn; tauto. Qed.
+
+
+Definition flying (p : phase) : Prop := match p with Opening | Setting _ => True | _ => False end.
+Lemma flying_pre p : flying p -> pre_pool p.
+Proof. destruct p; cbn; tauto. Qed.
+Lemma flying_lt s c : GInv s -> flying (ph s c) -> c < next s.
+Proof.
+  intros G H. destruct (Nat.lt_ge_cases c (next s)) as [Hl|Hl]; [exact Hl|].
+  rewrite (g_unborn s G c Hl) in H. contradiction.
+Qed.
+
+Lemma GInv_move s c p :
+  GInv s -> flying (ph s c) -> p <> Unborn -> GInv (set_ph s (upd (ph s) c p)).
+Proof.
+  intros G Hc Hp. apply GInv_phase_change; [exact G| |].
+  - intros x Hx. destruct (Nat.eq_dec x c) as [->|Hne].
+    + apply flying_pre, Hc.
+    + rewrite upd_other in Hx by exact Hne. exact Hx.
+  - intros x Hx. rewrite upd_other; [apply (g_unborn s G), Hx|].
+    pose proof (flying_lt s c G Hc). lia.
+Qed.
+
+Lemma GInv_accept_path s c reshard a s' :
+  GInv s -> flying (ph s c) -> accept_path s c reshard a = Some s' -> GInv s'.
+Proof.
+  intros G Hc H. unfold accept_path in H.
+  destruct (reshard && negb (is_accept a)); [discriminate|]. injection H as <-.
+  pose proof (flying_lt s c G Hc) as Hlt.
+  apply GInv_phase_change; [exact G| |].
+  - intros x Hx. destruct (Nat.eq_dec x c) as [->|Hne].
+    + apply flying_pre, Hc.
+    + rewrite upd_other in Hx by exact Hne. destruct reshard; [apply resharded_pre|]; exact Hx.
+  - intros x Hx. rewrite upd_other by lia.
+    destruct reshard; [unfold resharded|]; rewrite (g_unborn s G x Hx); reflexivity.
+Qed.
+
+Lemma GInv_ready_path s c evks reshard a s' :
+  GInv s -> flying (ph s c) -> ready_path s c evks reshard a = Some s' -> GInv s'.
+Proof.
+  intros G Hc H. unfold ready_path in H.
+  destruct (cur s) as [k|]; [|eapply GInv_accept_path; eassumption].
+  destruct (evks_differs evks k); [|eapply GInv_accept_path; eassumption].
+  injection H as <-.
+  pose proof (GInv_move s c (Setting k) G Hc ltac:(discriminate)) as G'.
+  constructor; ssimpl.
+  - apply (g_unborn _ G').
+  - apply (g_pre _ G').
+  - apply (g_wire _ G').
+  - apply (g_log _ G').
+  - apply (g_uid _ G').
+Qed.
+
+Lemma GInv_set_acked s f : GInv s -> GInv (set_acked s f).
+Proof. intros G. constructor; ssimpl; apply G. Qed.
+
+(* pending mapped by a shape-preserving function *)
+Lemma GInv_map_pending s g :
+  GInv s -> (forall r, same_shape r (g r)) -> GInv (set_pending s (map g (pending s))).
+Proof.
+  intros G Hg. constructor; ssimpl; try apply G.
+  - intros c Hc. destruct (g_pre s G c Hc) as [Hw Hp]. split; [exact Hw|].
+    intros r' Hr'. apply in_map_iff in Hr'. destruct Hr' as [r [<- Hr]].
+    destruct (Hg r) as [_ [_ Hcov]]. rewrite Hcov. apply Hp, Hr.
+  - intros r' Hr'. apply in_map_iff in Hr'. destruct Hr' as [r [<- Hr]].
+    destruct (Hg r) as [Hu _]. rewrite Hu. apply (g_uid s G), Hr.
+Qed.
+
+Lemma upd_use_as_map l u f : upd_use l u f = map (fun r => if Nat.eqb (uid r) u then f r else r) l.
+Proof. reflexivity. Qed.
+
+Lemma GInv_step s l s' : GInv s -> step s l = Some s' -> GInv s'.
+Proof.
+  intros G H. destruct l; cbn [step] in H.
+  - (* OpenStart *)
+    injection H as <-. constructor; ssimpl.
+    + intros c Hc. rewrite upd_other by lia. apply (g_unborn s G). lia.
+    + intros c Hc. destruct (Nat.eq_dec c (next s)) as [->|Hne].
+      * apply (g_pre s G). rewrite (g_unborn s G (next s)) by lia. exact I.
+      * rewrite upd_other in Hc by exact Hne. apply (g_pre s G), Hc.
+    + apply (g_wire s G).
+    + apply (g_log s G).
+    + apply (g_uid s G).
+  - (* OpenReady *)
+    destruct (ph s c) eqn:E; try discriminate.
+    destruct ok.
+    + eapply GInv_ready_path; [exact G| |exact H]. rewrite E. exact I.
+    + injection H as <-. apply GInv_move; [exact G|rewrite E; exact I|discriminate].
+  - (* SetKsDone *)
+    destruct (ph s c) eqn:E; try discriminate.
+    destruct r as [rep|].
+    + destruct (alive s c); [|discriminate].
+      set (s1 := match rep with RSetKeyspace n => set_acked s (upd (acked s) c (Some n)) | _ => s end) in *.
+      assert (G1 : GInv s1) by (subst s1; destruct rep; try apply GInv_set_acked; exact G).
+      assert (E1 : ph s1 c = Setting k) by (subst s1; destruct rep; exact E).
+      destruct (verify_result k rep).
+      * eapply GInv_ready_path; [exact G1| |exact H]. rewrite E1. exact I.
+      * injection H as <-. apply GInv_move; [exact G1|rewrite E1; exact I|discriminate].
+      * injection H as <-. apply GInv_move; [exact G1|rewrite E1; exact I|discriminate].
+      * injection H as <-. apply GInv_move; [exact G1|rewrite E1; exact I|discriminate].
+    + injection H as <-.
+      pose proof (GInv_move s c Gone G ltac:(rewrite E; exact I) ltac:(discriminate)) as G'.
+      constructor; ssimpl; apply G'.
+  - (* ClearExcess *)
+    injection H as <-. apply GInv_phase_change; [exact G| |].
+    + intros c Hc. destruct (ph s c); cbn in *; tauto.
+    + intros c Hc. rewrite (g_unborn s G c Hc). reflexivity.
+  - (* UseKeyspace *)
+    destruct (make_verified raw cs) as [k|e]; [|injection H as <-; exact G].
+    injection H as <-. constructor; ssimpl.
+    + apply (g_unborn s G).
+    + intros c Hc. destruct (g_pre s G c Hc) as [Hw Hp]. split; [exact Hw|].
+      intros r Hr. apply in_app_iff in Hr. destruct Hr as [Hr|[<-|[]]]; [apply Hp, Hr|].
+      cbn [cov]. intros Hin. apply in_pool_conns in Hin. destruct Hin as [_ Hin].
+      rewrite Hin in Hc. exact Hc.
+    + intros c u k0 Hin. pose proof (g_wire s G c u k0 Hin). lia.
+    + intros u a Hin. pose proof (g_log s G u a Hin). lia.
+    + intros r Hr. apply in_app_iff in Hr. destruct Hr as [Hr|[<-|[]]].
+      * pose proof (g_uid s G r Hr). lia.
+      * cbn [uid]. lia.
+  - (* UseSend *)
+    destruct (find_use (pending s) u) as [r|] eqn:F; [|discriminate].
+    apply find_use_some in F. destruct F as [Hr Hu].
+    destruct (mem c (cov r)) eqn:M; [|discriminate]. apply mem_In in M.
+    destruct (stat r c); try discriminate.
+    assert (Hnp : ~ pre_pool (ph s c)).
+    { intros Hp. destruct (g_pre s G c Hp) as [_ Hq]. exact (Hq r Hr M). }
+    destruct (alive s c).
+    + injection H as <-.
+      pose proof (GInv_map_pending s (fun r0 => if Nat.eqb (uid r0) u then set_stat r0 c Sent else r0) G) as G'.
+      assert (Hsh : forall r0, same_shape r0 (if Nat.eqb (uid r0) u then set_stat r0 c Sent else r0)).
+      { intros r0. destruct (Nat.eqb (uid r0) u); [apply same_shape_set_stat|apply same_shape_refl]. }
+      specialize (G' Hsh). constructor; ssimpl.
+      * apply (g_unborn _ G').
+      * intros x Hx. destruct (g_pre _ G' x Hx) as [Hw Hp]. ssimpl. split; [|exact Hp].
+        destruct (Nat.eq_dec x c) as [->|Hne]; [contradiction|].
+        rewrite upd_other by exact Hne. exact Hw.
+      * intros x u0 k0 Hin. destruct (Nat.eq_dec x c) as [->|Hne].
+        -- rewrite upd_same in Hin. apply in_app_iff in Hin. destruct Hin as [Hin|[Heq|[]]].
+           ++ apply (g_wire s G c u0 k0 Hin).
+           ++ injection Heq as <- _. rewrite <- Hu. apply (g_uid s G r Hr).
+        -- rewrite upd_other in Hin by exact Hne. apply (g_wire s G x u0 k0 Hin).
+      * apply (g_log s G).
+      * apply (g_uid _ G').
+    + injection H as <-.
+      apply (GInv_map_pending s (fun r0 => if Nat.eqb (uid r0) u then set_stat r0 c (Done (CBroken 0)) else r0) G).
+      intros r0. destruct (Nat.eqb (uid r0) u); [apply same_shape_set_stat|apply same_shape_refl].
+  - (* UseAck *)
+    destruct (alive s c); [|discriminate].
+    destruct (wire s c) as [|[u k] rest] eqn:W; [discriminate|].
+    injection H as <-.
+    set (s1 := match r with RSetKeyspace n => set_acked s (upd (acked s) c (Some n)) | _ => s end) in *.
+    assert (G1 : GInv s1) by (subst s1; destruct r; try apply GInv_set_acked; exact G).
+    assert (W1 : wire s1 = wire s) by (subst s1; destruct r; reflexivity).
+    assert (P1 : pending s1 = pending s) by (subst s1; destruct r; reflexivity).
+    set (g := fun r0 : use_rec => if Nat.eqb (uid r0) u then
+                 match stat r0 c with Sent => set_stat r0 c (Done match verify_result k r with VOk => COk | _ => CErr 0 end) | _ => r0 end
+               else r0).
+    assert (Hsh : forall r0, same_shape r0 (g r0)).
+    { intros r0. unfold g. destruct (Nat.eqb (uid r0) u); [|apply same_shape_refl].
+      destruct (stat r0 c); try apply same_shape_refl. apply same_shape_set_stat. }
+    pose proof (GInv_map_pending s1 g G1 Hsh) as G'.
+    constructor; ssimpl.
+    + apply (g_unborn _ G').
+    + intros x Hx. destruct (g_pre _ G' x Hx) as [Hw Hp]. ssimpl. split; [|exact Hp].
+      destruct (Nat.eq_dec x c) as [->|Hne].
+      * rewrite W1, W in Hw. discriminate.
+      * rewrite upd_other by exact Hne. exact Hw.
+    + intros x u0 k0 Hin. destruct (Nat.eq_dec x c) as [->|Hne].
+      * rewrite upd_same in Hin. apply (g_wire _ G1 c u0 k0). rewrite W1, W. right. exact Hin.
+      * rewrite upd_other in Hin by exact Hne. apply (g_wire _ G1 x u0 k0 Hin).
+    + apply (g_log _ G1).
+    + apply (g_uid _ G').
+  - (* ConnBreak *)
+    destruct (alive s c && (c <? next s)); [|discriminate]. injection H as <-.
+    set (g := fun r : use_rec => match stat r c with Sent => set_stat r c (Done (CBroken 0)) | _ => r end).
+    assert (Hsh : forall r0, same_shape r0 (g r0)).
+    { intros r0. unfold g. destruct (stat r0 c); try apply same_shape_refl. apply same_shape_set_stat. }
+    pose proof (GInv_map_pending s g G Hsh) as G'.
+    constructor; ssimpl.
+    + apply (g_unborn _ G').
+    + intros x Hx. destruct (g_pre _ G' x Hx) as [Hw Hp]. ssimpl. split; [|exact Hp].
+      destruct (Nat.eq_dec x c) as [->|Hne]; [apply upd_same|].
+      rewrite upd_other by exact Hne. exact Hw.
+    + intros x u0 k0 Hin. destruct (Nat.eq_dec x c) as [->|Hne].
+      * rewrite upd_same in Hin. contradiction.
+      * rewrite upd_other in Hin by exact Hne. apply (g_wire s G x u0 k0 Hin).
+    + apply (g_log s G).
+    + apply (g_uid _ G').
+  - (* ConnError *)
+    destruct (alive s c); [discriminate|].
+    assert (Hlt : ph s c = InPool \/ ph s c = Excess -> c < next s).
+    { intros Hp. destruct (Nat.lt_ge_cases c (next s)) as [Hl|Hl]; [exact Hl|].
+      rewrite (g_unborn s G c Hl) in Hp. destruct Hp; discriminate. }
+    destruct (ph s c) eqn:E; try discriminate; injection H as <-.
+    + apply GInv_phase_change; [exact G| |].
+      * intros x Hx. destruct (Nat.eq_dec x c) as [->|Hne]; [rewrite upd_same in Hx; contradiction|].
+        rewrite upd_other in Hx by exact Hne. exact Hx.
+      * intros x Hx. rewrite upd_other; [apply (g_unborn s G x Hx)|]. specialize (Hlt (or_introl eq_refl)). lia.
+    + apply GInv_phase_change; [exact G| |].
+      * intros x Hx. destruct (Nat.eq_dec x c) as [->|Hne]; [rewrite upd_same in Hx; contradiction|].
+        rewrite upd_other in Hx by exact Hne. exact Hx.
+      * intros x Hx. rewrite upd_other; [apply (g_unborn s G x Hx)|]. specialize (Hlt (or_intror eq_refl)). lia.
+  - (* UseDone *)
+    destruct (find_use (pending s) u) as [r|] eqn:F; [|discriminate].
+    apply find_use_some in F. destruct F as [Hr Hu].
+    destruct (forallb (fun c => is_done (stat r c)) (cov r) && panswer_eqb a (answer_of r)); [|discriminate].
+    injection H as <-. constructor; ssimpl.
+    + apply (g_unborn s G).
+    + intros c Hc. destruct (g_pre s G c Hc) as [Hw Hp]. split; [exact Hw|].
+      intros r0 Hr0. apply in_drop_use in Hr0. apply Hp, Hr0.
+    + apply (g_wire s G).
+    + intros u0 a0 Hin. apply in_app_iff in Hin. destruct Hin as [Hin|[Heq|[]]].
+      * apply (g_log s G u0 a0 Hin).
+      * injection Heq as <- _. rewrite <- Hu. apply (g_uid s G r Hr).
+    + intros r0 Hr0. apply in_drop_use in Hr0. apply (g_uid s G), Hr0.
+  - (* UseTimeout *)
+    destruct (find_use (pending s) u) as [r|] eqn:F; [|discriminate].
+    apply find_use_some in F. destruct F as [Hr Hu].
+    destruct (cov r); [discriminate|].
+    injection H as <-. constructor; ssimpl.
+    + apply (g_unborn s G).
+    + intros c Hc. destruct (g_pre s G c Hc) as [Hw Hp]. split; [exact Hw|].
+      intros r0 Hr0. apply in_drop_use in Hr0. apply Hp, Hr0.
+    + apply (g_wire s G).
+    + intros u0 a0 Hin. apply in_app_iff in Hin. destruct Hin as [Hin|[Heq|[]]].
+      * apply (g_log s G u0 a0 Hin).
+      * injection Heq as <- _. rewrite <- Hu. apply (g_uid s G r Hr).
+    + intros r0 Hr0. apply in_drop_use in Hr0. apply (g_uid s G), Hr0.
+  - (* Request *)
+    destruct (ph s c); try discriminate. injection H as <-. exact G.
+Qed.
+
+(* ---- every keyspace name in the system went through the validation ---------------------- *)
+
+
+Definition vks (k : ks) : Prop := valid_name (fst k).
+
+Record NInv (s : pool) : Prop := mkN {
+  n_cur : forall k, cur s = Some k -> vks k;
+  n_set : forall c k, ph s c = Setting k -> vks k;
+  n_pend : forall r, In r (pending s) -> vks (uks r);
+  n_told : forall c k, In k (told s c) -> vks k;
+  n_wire : forall c u k, In (u, k) (wire s c) -> vks k
+}.
+
+Lemma NInv_init k0 : (forall k, k0 = Some k -> vks k) -> NInv (init k0).
+Proof. intros H. constructor; cbn; intros; try contradiction; try discriminate. apply H. assumption. Qed.
+
+Lemma NInv_accept_path s c reshard a s' :
+  NInv s -> accept_path s c reshard a = Some s' -> NInv s'.
+Proof.
+  intros N H. unfold accept_path in H.
+  destruct (reshard && negb (is_accept a)); [discriminate|]. injection H as <-.
+  constructor; ssimpl; try apply N.
+  intros x k Hx. destruct (Nat.eq_dec x c) as [->|Hne].
+  - rewrite upd_same in Hx. destruct a; discriminate.
+  - rewrite upd_other in Hx by exact Hne. destruct reshard.
+    + unfold resharded in Hx. destruct (ph s x) eqn:E; try discriminate. injection Hx as <-. apply (n_set s N x), E.
+    + apply (n_set s N x), Hx.
+Qed.
+
+Lemma NInv_ready_path s c evks reshard a s' :
+  NInv s -> ready_path s c evks reshard a = Some s' -> NInv s'.
+Proof.
+  intros N H. unfold ready_path in H.
+  destruct (cur s) as [k|] eqn:C; [|eapply NInv_accept_path; eassumption].
+  destruct (evks_differs evks k); [|eapply NInv_accept_path; eassumption].
+  injection H as <-. pose proof (n_cur s N k C) as Hk.
+  constructor; ssimpl; try apply N.
+  - intros x k0 Hx. destruct (Nat.eq_dec x c) as [->|Hne].
+    + rewrite upd_same in Hx. injection Hx as <-. exact Hk.
+    + rewrite upd_other in Hx by exact Hne. apply (n_set s N x), Hx.
+  - intros x k0 Hx. destruct (Nat.eq_dec x c) as [->|Hne].
+    + rewrite upd_same in Hx. apply in_app_iff in Hx. destruct Hx as [Hx|[<-|[]]]; [apply (n_told s N c), Hx|exact Hk].
+    + rewrite upd_other in Hx by exact Hne. apply (n_told s N x), Hx.
+Qed.
+
+Lemma NInv_set_ph_gone s c : NInv s -> NInv (set_ph s (upd (ph s) c Gone)).
+Proof.
+  intros N. constructor; ssimpl; try apply N.
+  intros x k Hx. destruct (Nat.eq_dec x c) as [->|Hne].
+  - rewrite upd_same in Hx. discriminate.
+  - rewrite upd_other in Hx by exact Hne. apply (n_set s N x), Hx.
+Qed.
+
+Lemma NInv_set_acked s f : NInv s -> NInv (set_acked s f).
+Proof. intros N. constructor; ssimpl; apply N. Qed.
+
+Lemma NInv_map_pending s g :
+  NInv s -> (forall r, same_shape r (g r)) -> NInv (set_pending s (map g (pending s))).
+Proof.
+  intros N Hg. constructor; ssimpl; try apply N.
+  intros r' Hr'. apply in_map_iff in Hr'. destruct Hr' as [r [<- Hr]].
+  destruct (Hg r) as [_ [Hk _]]. rewrite Hk. apply (n_pend s N), Hr.
+Qed.
+
+Lemma NInv_step s l s' : NInv s -> step s l = Some s' -> NInv s'.
+Proof.
+  intros N H. destruct l; cbn [step] in H.
+  - injection H as <-. constructor; ssimpl; try apply N.
+    intros x k Hx. destruct (Nat.eq_dec x (next s)) as [->|Hne].
+    + rewrite upd_same in Hx. discriminate.
+    + rewrite upd_other in Hx by exact Hne. apply (n_set s N x), Hx.
+  - destruct (ph s c); try discriminate. destruct ok.
+    + eapply NInv_ready_path; eassumption.
+    + injection H as <-. apply NInv_set_ph_gone, N.
+  - destruct (ph s c) eqn:E; try discriminate. destruct r as [rep|].
+    + destruct (alive s c); [|discriminate].
+      set (s1 := match rep with RSetKeyspace n => set_acked s (upd (acked s) c (Some n)) | _ => s end) in *.
+      assert (N1 : NInv s1) by (subst s1; destruct rep; try apply NInv_set_acked; exact N).
+      destruct (verify_result k rep).
+      * eapply NInv_ready_path; eassumption.
+      * injection H as <-. apply NInv_set_ph_gone, N1.
+      * injection H as <-. apply NInv_set_ph_gone, N1.
+      * injection H as <-. apply NInv_set_ph_gone, N1.
+    + injection H as <-. pose proof (NInv_set_ph_gone s c N) as N'.
+      constructor; ssimpl; apply N'.
+  - injection H as <-. constructor; ssimpl; try apply N.
+    intros x k Hx. destruct (ph s x) eqn:E; try discriminate. injection Hx as <-. apply (n_set s N x), E.
+  - destruct (make_verified raw cs) as [k|e] eqn:M; [|injection H as <-; exact N].
+    apply make_verified_ok in M. destruct M as [-> Hv].
+    injection H as <-. constructor; ssimpl; try apply N.
+    + intros k Hk. injection Hk as <-. exact Hv.
+    + intros r Hr. apply in_app_iff in Hr. destruct Hr as [Hr|[<-|[]]]; [apply (n_pend s N), Hr|exact Hv].
+  - destruct (find_use (pending s) u) as [r|] eqn:F; [|discriminate].
+    apply find_use_some in F. destruct F as [Hr Hu].
+    destruct (mem c (cov r)); [|discriminate].
+    destruct (stat r c); try discriminate.
+    destruct (alive s c).
+    + injection H as <-.
+      assert (Hsh : forall r0, same_shape r0 (if Nat.eqb (uid r0) u then set_stat r0 c Sent else r0)).
+      { intros r0. destruct (Nat.eqb (uid r0) u); [apply same_shape_set_stat|apply same_shape_refl]. }
+      pose proof (NInv_map_pending s _ N Hsh) as N'.
+      pose proof (n_pend s N r Hr) as Hk.
+      constructor; ssimpl.
+      * apply (n_cur s N).
+      * apply (n_set s N).
+      * apply (n_pend _ N').
+      * intros x k Hx. destruct (Nat.eq_dec x c) as [->|Hne].
+        -- rewrite upd_same in Hx. apply in_app_iff in Hx. destruct Hx as [Hx|[<-|[]]]; [apply (n_told s N c), Hx|exact Hk].
+        -- rewrite upd_other in Hx by exact Hne. apply (n_told s N x), Hx.
+      * intros x u0 k Hx. destruct (Nat.eq_dec x c) as [->|Hne].
+        -- rewrite upd_same in Hx. apply in_app_iff in Hx. destruct Hx as [Hx|[Heq|[]]]; [apply (n_wire s N c u0), Hx|].
+           injection Heq as _ <-. exact Hk.
+        -- rewrite upd_other in Hx by exact Hne. apply (n_wire s N x u0), Hx.
+    + injection H as <-. apply NInv_map_pending; [exact N|].
+      intros r0. destruct (Nat.eqb (uid r0) u); [apply same_shape_set_stat|apply same_shape_refl].
+  - destruct (alive s c); [|discriminate].
+    destruct (wire s c) as [|[u k] rest] eqn:W; [discriminate|].
+    injection H as <-.
+    set (s1 := match r with RSetKeyspace n => set_acked s (upd (acked s) c (Some n)) | _ => s end) in *.
+    assert (N1 : NInv s1) by (subst s1; destruct r; try apply NInv_set_acked; exact N).
+    assert (W1 : wire s1 = wire s) by (subst s1; destruct r; reflexivity).
+    set (g := fun r0 : use_rec => if Nat.eqb (uid r0) u then
+                 match stat r0 c with Sent => set_stat r0 c (Done match verify_result k r with VOk => COk | _ => CErr 0 end) | _ => r0 end
+               else r0).
+    assert (Hsh : forall r0, same_shape r0 (g r0)).
+    { intros r0. unfold g. destruct (Nat.eqb (uid r0) u); [|apply same_shape_refl].
+      destruct (stat r0 c); try apply same_shape_refl. apply same_shape_set_stat. }
+    pose proof (NInv_map_pending s1 g N1 Hsh) as N'.
+    constructor; ssimpl.
+    + apply (n_cur _ N1).
+    + apply (n_set _ N1).
+    + apply (n_pend _ N').
+    + apply (n_told _ N1).
+    + intros x u0 k0 Hx. destruct (Nat.eq_dec x c) as [->|Hne].
+      * rewrite upd_same in Hx. apply (n_wire _ N1 c u0). rewrite W1, W. right. exact Hx.
+      * rewrite upd_other in Hx by exact Hne. apply (n_wire _ N1 x u0), Hx.
+  - destruct (alive s c && (c <? next s)); [|discriminate]. injection H as <-.
+    set (g := fun r : use_rec => match stat r c with Sent => set_stat r c (Done (CBroken 0)) | _ => r end).
+    assert (Hsh : forall r0, same_shape r0 (g r0)).
+    { intros r0. unfold g. destruct (stat r0 c); try apply same_shape_refl. apply same_shape_set_stat. }
+    pose proof (NInv_map_pending s g N Hsh) as N'.
+    constructor; ssimpl.
+    + apply (n_cur s N).
+    + apply (n_set s N).
+    + apply (n_pend _ N').
+    + apply (n_told s N).
+    + intros x u0 k0 Hx. destruct (Nat.eq_dec x c) as [->|Hne].
+      * rewrite upd_same in Hx. contradiction.
+      * rewrite upd_other in Hx by exact Hne. apply (n_wire s N x u0), Hx.
+  - destruct (alive s c); [discriminate|].
+    destruct (ph s c); try discriminate; injection H as <-; apply NInv_set_ph_gone, N.
+  - destruct (find_use (pending s) u) as [r|]; [|discriminate].
+    destruct (forallb (fun c => is_done (stat r c)) (cov r) && panswer_eqb a (answer_of r)); [|discriminate].
+    injection H as <-. constructor; ssimpl; try apply N.
+    intros r0 Hr0. apply in_drop_use in Hr0. apply (n_pend s N), Hr0.
+  - destruct (find_use (pending s) u) as [r|]; [|discriminate].
+    destruct (cov r); [discriminate|].
+    injection H as <-. constructor; ssimpl; try apply N.
+    intros r0 Hr0. apply in_drop_use in Hr0. apply (n_pend s N), Hr0.
+  - destruct (ph s c); try discriminate. injection H as <-. exact N.
+Qed.
+
+(* ---- no connection is published without having been told about the current keyspace ------ *)
+
+
+Definition covers_notsent (s : pool) (k : ks) (c : nat) : Prop :=
+  exists r u, cur_uid s = Some u /\ In r (pending s) /\ uid r = u /\ uks r = k /\ In c (cov r) /\ stat r c = NotSent.
+Definition latest_failed (s : pool) : Prop := exists u, cur_uid s = Some u /\ In (u, PAErr) (log s).
+
+Record TInv (s : pool) : Prop := mkT {
+  t_set : forall c k, ph s c = Setting k -> In k (told s c);
+  t_nodup : NoDup (map uid (pending s));
+  t_main : forall k c, cur s = Some k -> ph s c = InPool -> alive s c = true ->
+           In k (told s c) \/ covers_notsent s k c \/ latest_failed s
+}.
+
+Lemma TInv_init k0 : TInv (init k0).
+Proof. constructor; cbn; intros; try discriminate. constructor. Qed.
+
+Lemma nodup_uid_unique l r r' :
+  NoDup (map uid l) -> In r l -> In r' l -> uid r = uid r' -> r = r'.
+Proof.
+  induction l as [|x l IH]; intros Hn Hr Hr' He; [contradiction|].
+  cbn in Hn. inversion Hn as [|? ? Hx Hn']; subst.
+  destruct Hr as [<-|Hr], Hr' as [<-|Hr'].
+  - reflexivity.
+  - exfalso. apply Hx. rewrite He. apply in_map, Hr'.
+  - exfalso. apply Hx. rewrite <- He. apply in_map, Hr.
+  - apply IH; assumption.
+Qed.
+
+Lemma nodup_snoc {A} (l : list A) x : NoDup l -> ~ In x l -> NoDup (l ++ [x]).
+Proof.
+  intros Hn Hx. induction l as [|y l IH]; cbn.
+  - constructor; [intros []|constructor].
+  - inversion Hn as [|? ? Hy Hn']; subst. constructor.
+    + intros Hin. apply in_app_iff in Hin. destruct Hin as [Hin|[<-|[]]]; [contradiction|].
+      apply Hx. left. reflexivity.
+    + apply IH; [exact Hn'|]. intros Hin. apply Hx. right. exact Hin.
+Qed.
+
+Lemma map_uid_shape l g : (forall r, same_shape r (g r)) -> map uid (map g l) = map uid l.
+Proof. intros Hg. rewrite map_map. apply map_ext. intros r. apply (Hg r). Qed.
+
+Lemma nodup_drop_use l u : NoDup (map uid l) -> NoDup (map uid (drop_use l u)).
+Proof.
+  induction l as [|x l IH]; intros H; [constructor|].
+  cbn in H. inversion H as [|? ? Hx Hn]; subst. cbn [drop_use filter].
+  destruct (negb (Nat.eqb (uid x) u)).
+  - cbn [map]. constructor; [|apply IH, Hn]. intros Hin. apply Hx.
+    apply in_map_iff in Hin. destruct Hin as [r [He Hr]]. apply in_drop_use in Hr.
+    rewrite <- He. apply in_map, Hr.
+  - apply IH, Hn.
+Qed.
+
+(* phases other than c are unchanged or become Gone; told only grows; etc.: generic preservation
+   of t_main for steps that do not touch pending/cur/log and keep alive/told monotone *)
+Lemma TInv_accept_path s c reshard a s' :
+  TInv s -> (forall k, cur s = Some k -> In k (told s c)) ->
+  accept_path s c reshard a = Some s' -> TInv s'.
+Proof.
+  intros T Hc H. unfold accept_path in H.
+  destruct (reshard && negb (is_accept a)); [discriminate|]. injection H as <-.
+  constructor; ssimpl.
+  - intros x k Hx. destruct (Nat.eq_dec x c) as [->|Hne].
+    + rewrite upd_same in Hx. destruct a; discriminate.
+    + rewrite upd_other in Hx by exact Hne. apply (t_set s T). destruct reshard; [|exact Hx].
+      unfold resharded in Hx. destruct (ph s x); try discriminate. exact Hx.
+  - apply (t_nodup s T).
+  - intros k x Hk Hx Ha. destruct (Nat.eq_dec x c) as [->|Hne].
+    + left. apply Hc, Hk.
+    + rewrite upd_other in Hx by exact Hne.
+      assert (Hx' : ph s x = InPool).
+      { destruct reshard; [|exact Hx]. unfold resharded in Hx. destruct (ph s x); try discriminate. }
+      exact (t_main s T k x Hk Hx' Ha).
+Qed.
+
+Lemma TInv_ready_path s c evks reshard a s' :
+  TInv s -> (forall k, evks = Some k -> In k (told s c)) ->
+  ready_path s c evks reshard a = Some s' -> TInv s'.
+Proof.
+  intros T He H. unfold ready_path in H.
+  destruct (cur s) as [k|] eqn:C.
+  - destruct (evks_differs evks k) eqn:D.
+    + injection H as <-. constructor; ssimpl.
+      * intros x k0 Hx. destruct (Nat.eq_dec x c) as [->|Hne].
+        -- rewrite !upd_same in *. injection Hx as <-. apply in_app_iff. right. left. reflexivity.
+        -- rewrite !upd_other in * by exact Hne. apply (t_set s T x), Hx.
+      * apply (t_nodup s T).
+      * intros k0 x Hk Hx Ha. destruct (Nat.eq_dec x c) as [->|Hne].
+        -- rewrite upd_same in Hx. discriminate.
+        -- rewrite !upd_other in * by exact Hne.
+           destruct (t_main s T k0 x Hk Hx Ha) as [H1|[H2|H3]]; [left; exact H1|right; left; exact H2|right; right; exact H3].
+    + eapply (TInv_accept_path s c); [exact T| |exact H].
+      intros k0 Hk0. rewrite Hk0 in C. injection C as <-.
+      unfold evks_differs in D. destruct evks as [k'|]; [|discriminate].
+      apply negb_false_iff, ks_eqb_eq in D. subst. apply He. reflexivity.
+  - eapply (TInv_accept_path s c); [exact T| |exact H]. intros k0 Hk0. congruence.
+Qed.
+
+Lemma TInv_phase_gone s f :
+  TInv s -> (forall x, f x = ph s x \/ f x = Gone) -> TInv (set_ph s f).
+Proof.
+  intros T Hf. constructor; ssimpl.
+  - intros x k Hx. destruct (Hf x) as [H|H]; rewrite H in Hx; [apply (t_set s T x), Hx|discriminate].
+  - apply (t_nodup s T).
+  - intros k x Hk Hx Ha. destruct (Hf x) as [H|H]; rewrite H in Hx; [|discriminate].
+    exact (t_main s T k x Hk Hx Ha).
+Qed.
+
+Lemma upd_gone_cases f c x : upd f c Gone x = f x \/ upd f c Gone x = Gone.
+Proof. unfold upd. destruct (Nat.eqb x c); [right|left]; reflexivity. Qed.
+
+Lemma TInv_set_acked s f : TInv s -> TInv (set_acked s f).
+Proof. intros T. constructor; ssimpl; apply T. Qed.
+
+(* pending mapped by a shape preserving g that keeps NotSent entries *)
+Lemma TInv_map_pending s g :
+  TInv s -> (forall r, same_shape r (g r)) ->
+  (forall r c, stat r c = NotSent -> alive s c = true -> stat (g r) c = NotSent) ->
+  TInv (set_pending s (map g (pending s))).
+Proof.
+  intros T Hg Hns. constructor; ssimpl.
+  - apply (t_set s T).
+  - rewrite map_uid_shape by exact Hg. apply (t_nodup s T).
+  - intros k c Hk Hc Ha. destruct (t_main s T k c Hk Hc Ha) as [H1|[H2|H3]].
+    + left. exact H1.
+    + right. left. destruct H2 as [r [u [Hu [Hr [Hur [Hkr [Hcov Hst]]]]]]].
+      exists (g r), u. destruct (Hg r) as [E1 [E2 E3]]. ssimpl.
+      repeat split; try congruence.
+      * apply in_map, Hr.
+      * apply Hns; assumption.
+    + right. right. exact H3.
+Qed.
+
+Lemma TInv_step s l s' : GInv s -> TInv s -> step s l = Some s' -> TInv s'.
+Proof.
+  intros G T H. destruct l; cbn [step] in H.
+  - (* OpenStart *)
+    injection H as <-. constructor; ssimpl.
+    + intros x k Hx. destruct (Nat.eq_dec x (next s)) as [->|Hne].
+      * rewrite upd_same in Hx. discriminate.
+      * rewrite upd_other in Hx by exact Hne. apply (t_set s T x), Hx.
+    + apply (t_nodup s T).
+    + intros k x Hk Hx Ha. destruct (Nat.eq_dec x (next s)) as [->|Hne].
+      * rewrite upd_same in Hx. discriminate.
+      * rewrite upd_other in Hx by exact Hne. rewrite upd_other in Ha by exact Hne. exact (t_main s T k x Hk Hx Ha).
+  - (* OpenReady *)
+    destruct (ph s c) eqn:E; try discriminate. destruct ok.
+    + eapply TInv_ready_path; [exact T| |exact H]. intros k Hk. discriminate.
+    + injection H as <-. apply TInv_phase_gone; [exact T|]. intros x. apply upd_gone_cases.
+  - (* SetKsDone *)
+    destruct (ph s c) eqn:E; try discriminate. destruct r as [rep|].
+    + destruct (alive s c); [|discriminate].
+      set (s1 := match rep with RSetKeyspace n => set_acked s (upd (acked s) c (Some n)) | _ => s end) in *.
+      assert (T1 : TInv s1) by (subst s1; destruct rep; try apply TInv_set_acked; exact T).
+      assert (E1 : ph s1 c = Setting k) by (subst s1; destruct rep; exact E).
+      destruct (verify_result k rep).
+      * eapply TInv_ready_path; [exact T1| |exact H]. intros k0 Hk0. injection Hk0 as <-.
+        apply (t_set _ T1 c), E1.
+      * injection H as <-. apply TInv_phase_gone; [exact T1|]. intros x. apply upd_gone_cases.
+      * injection H as <-. apply TInv_phase_gone; [exact T1|]. intros x. apply upd_gone_cases.
+      * injection H as <-. apply TInv_phase_gone; [exact T1|]. intros x. apply upd_gone_cases.
+    + injection H as <-.
+      pose proof (TInv_phase_gone s (upd (ph s) c Gone) T (upd_gone_cases _ _)) as T'.
+      constructor; ssimpl.
+      * apply (t_set _ T').
+      * apply (t_nodup _ T').
+      * intros k0 x Hk Hx Ha. destruct (Nat.eq_dec x c) as [->|Hne].
+        -- rewrite upd_same in Ha. discriminate.
+        -- rewrite upd_other in Ha by exact Hne. exact (t_main _ T' k0 x Hk Hx Ha).
+  - (* ClearExcess *)
+    injection H as <-. apply TInv_phase_gone; [exact T|]. intros x. destruct (ph s x); auto.
+  - (* UseKeyspace *)
+    destruct (make_verified raw cs) as [k|e]; [|injection H as <-; exact T].
+    injection H as <-. constructor; ssimpl.
+    + apply (t_set s T).
+    + rewrite map_app. cbn [map uid]. apply nodup_snoc; [apply (t_nodup s T)|].
+      intros Hin. apply in_map_iff in Hin. destruct Hin as [r [He Hr]].
+      pose proof (g_uid s G r Hr). lia.
+    + intros k0 x Hk Hx Ha. injection Hk as <-. right. left.
+      exists (mkUse (unext s) k (pool_conns s) (fun _ => NotSent)), (unext s). ssimpl.
+      repeat split.
+      * apply in_app_iff. right. left. reflexivity.
+      * apply in_pool_conns. split; [|exact Hx].
+        destruct (Nat.lt_ge_cases x (next s)) as [Hl|Hl]; [exact Hl|].
+        rewrite (g_unborn s G x Hl) in Hx. discriminate.
+  - (* UseSend *)
+    destruct (find_use (pending s) u) as [r|] eqn:F; [|discriminate].
+    apply find_use_some in F. destruct F as [Hr Hu].
+    destruct (mem c (cov r)) eqn:M; [|discriminate]. apply mem_In in M.
+    destruct (stat r c) eqn:St; try discriminate.
+    destruct (alive s c) eqn:Al.
+    + injection H as <-.
+      set (g := fun r0 : use_rec => if Nat.eqb (uid r0) u then set_stat r0 c Sent else r0).
+      assert (Hsh : forall r0, same_shape r0 (g r0)).
+      { intros r0. unfold g. destruct (Nat.eqb (uid r0) u); [apply same_shape_set_stat|apply same_shape_refl]. }
+      constructor; ssimpl.
+      * intros x k Hx. pose proof (t_set s T x k Hx) as Hin.
+        destruct (Nat.eq_dec x c) as [->|Hne]; [rewrite upd_same; apply in_app_iff; left; exact Hin|].
+        rewrite upd_other by exact Hne. exact Hin.
+      * change (upd_use (pending s) u (fun r0 => set_stat r0 c Sent)) with (map g (pending s)).
+        rewrite map_uid_shape by exact Hsh. apply (t_nodup s T).
+      * intros k x Hk Hx Ha. destruct (t_main s T k x Hk Hx Ha) as [H1|[H2|H3]].
+        -- left. destruct (Nat.eq_dec x c) as [->|Hne]; [rewrite upd_same; apply in_app_iff; left; exact H1|].
+           rewrite upd_other by exact Hne. exact H1.
+        -- destruct H2 as [r2 [u2 [Hu2 [Hr2 [Hur2 [Hkr2 [Hcov2 Hst2]]]]]]].
+           destruct (Nat.eq_dec x c) as [->|Hne].
+           ++ destruct (Nat.eq_dec u2 u) as [->|Hneu].
+              ** left. rewrite upd_same. apply in_app_iff. right. left.
+                 assert (r2 = r) by (apply (nodup_uid_unique (pending s)); [apply (t_nodup s T)|assumption|assumption|congruence]).
+                 subst r2. exact Hkr2.
+              ** right. left. exists (g r2), u2. destruct (Hsh r2) as [E1 [E2 E3]]. ssimpl.
+                 repeat split; try congruence.
+                 --- change (upd_use (pending s) u (fun r0 => set_stat r0 c Sent)) with (map g (pending s)). apply in_map, Hr2.
+                 --- unfold g. destruct (Nat.eqb (uid r2) u) eqn:Eq; [apply Nat.eqb_eq in Eq; congruence|exact Hst2].
+           ++ right. left. exists (g r2), u2. destruct (Hsh r2) as [E1 [E2 E3]]. ssimpl.
+              repeat split; try congruence.
+              ** change (upd_use (pending s) u (fun r0 => set_stat r0 c Sent)) with (map g (pending s)). apply in_map, Hr2.
+              ** unfold g. destruct (Nat.eqb (uid r2) u); [|exact Hst2]. ssimpl. rewrite upd_other by exact Hne. exact Hst2.
+        -- right. right. exact H3.
+    + injection H as <-.
+      set (g := fun r0 : use_rec => if Nat.eqb (uid r0) u then set_stat r0 c (Done (CBroken 0)) else r0).
+      change (upd_use (pending s) u (fun r0 => set_stat r0 c (Done (CBroken 0)))) with (map g (pending s)).
+      apply TInv_map_pending; [exact T| |].
+      * intros r0. unfold g. destruct (Nat.eqb (uid r0) u); [apply same_shape_set_stat|apply same_shape_refl].
+      * intros r0 x Hst Hax. unfold g. destruct (Nat.eqb (uid r0) u); [|exact Hst]. ssimpl.
+        destruct (Nat.eq_dec x c) as [->|Hne]; [congruence|]. rewrite upd_other by exact Hne. exact Hst.
+  - (* UseAck *)
+    destruct (alive s c); [|discriminate].
+    destruct (wire s c) as [|[u k] rest] eqn:W; [discriminate|].
+    injection H as <-.
+    set (s1 := match r with RSetKeyspace n => set_acked s (upd (acked s) c (Some n)) | _ => s end) in *.
+    assert (T1 : TInv s1) by (subst s1; destruct r; try apply TInv_set_acked; exact T).
+    assert (A1 : alive s1 = alive s) by (subst s1; destruct r; reflexivity).
+    set (g := fun r0 : use_rec => if Nat.eqb (uid r0) u then
+                 match stat r0 c with Sent => set_stat r0 c (Done match verify_result k r with VOk => COk | _ => CErr 0 end) | _ => r0 end
+               else r0).
+    assert (T' : TInv (set_pending s1 (map g (pending s1)))).
+    { apply TInv_map_pending; [exact T1| |].
+      - intros r0. unfold g. destruct (Nat.eqb (uid r0) u); [|apply same_shape_refl].
+        destruct (stat r0 c); try apply same_shape_refl. apply same_shape_set_stat.
+      - intros r0 x Hst _. unfold g. destruct (Nat.eqb (uid r0) u); [|exact Hst].
+        destruct (stat r0 c) eqn:S0; try exact Hst. ssimpl.
+        destruct (Nat.eq_dec x c) as [->|Hne]; [congruence|]. rewrite upd_other by exact Hne. exact Hst. }
+    constructor; ssimpl.
+    + apply (t_set _ T').
+    + apply (t_nodup _ T').
+    + apply (t_main _ T').
+  - (* ConnBreak *)
+    destruct (alive s c && (c <? next s)); [|discriminate]. injection H as <-.
+    set (g := fun r : use_rec => match stat r c with Sent => set_stat r c (Done (CBroken 0)) | _ => r end).
+    assert (T' : TInv (set_pending s (map g (pending s)))).
+    { apply TInv_map_pending; [exact T| |].
+      - intros r0. unfold g. destruct (stat r0 c); try apply same_shape_refl. apply same_shape_set_stat.
+      - intros r0 x Hst _. unfold g. destruct (stat r0 c) eqn:S0; try exact Hst. ssimpl.
+        destruct (Nat.eq_dec x c) as [->|Hne]; [congruence|]. rewrite upd_other by exact Hne. exact Hst. }
+    constructor; ssimpl.
+    + apply (t_set _ T').
+    + apply (t_nodup _ T').
+    + intros k0 x Hk Hx Ha. destruct (Nat.eq_dec x c) as [->|Hne].
+      * rewrite upd_same in Ha. discriminate.
+      * rewrite upd_other in Ha by exact Hne. exact (t_main _ T' k0 x Hk Hx Ha).
+  - (* ConnError *)
+    destruct (alive s c); [discriminate|].
+    destruct (ph s c); try discriminate; injection H as <-;
+      (apply TInv_phase_gone; [exact T|]; intros x; apply upd_gone_cases).
+  - (* UseDone *)
+    destruct (find_use (pending s) u) as [r|] eqn:F; [|discriminate].
+    apply find_use_some in F. destruct F as [Hr Hu].
+    destruct (forallb (fun c => is_done (stat r c)) (cov r)) eqn:Fd; [|discriminate].
+    destruct (panswer_eqb a (answer_of r)); [|discriminate].
+    injection H as <-. constructor; ssimpl.
+    + apply (t_set s T).
+    + apply nodup_drop_use, (t_nodup s T).
+    + intros k x Hk Hx Ha. destruct (t_main s T k x Hk Hx Ha) as [H1|[H2|H3]].
+      * left. exact H1.
+      * destruct H2 as [r2 [u2 [Hu2 [Hr2 [Hur2 [Hkr2 [Hcov2 Hst2]]]]]]].
+        destruct (Nat.eq_dec u2 u) as [->|Hneu].
+        -- exfalso.
+           assert (r2 = r) by (apply (nodup_uid_unique (pending s)); [apply (t_nodup s T)|assumption|assumption|congruence]).
+           subst r2. rewrite forallb_forall in Fd. specialize (Fd x Hcov2). rewrite Hst2 in Fd. discriminate.
+        -- right. left. exists r2, u2. ssimpl. repeat split; try assumption.
+           apply in_drop_use. split; [exact Hr2|congruence].
+      * right. right. destruct H3 as [u3 [Hu3 Hl3]]. exists u3. split; [exact Hu3|]. apply in_app_iff. left. exact Hl3.
+  - (* UseTimeout *)
+    destruct (find_use (pending s) u) as [r|] eqn:F; [|discriminate].
+    apply find_use_some in F. destruct F as [Hr Hu].
+    destruct (cov r); [discriminate|].
+    injection H as <-. constructor; ssimpl.
+    + apply (t_set s T).
+    + apply nodup_drop_use, (t_nodup s T).
+    + intros k x Hk Hx Ha. destruct (t_main s T k x Hk Hx Ha) as [H1|[H2|H3]].
+      * left. exact H1.
+      * destruct H2 as [r2 [u2 [Hu2 [Hr2 [Hur2 [Hkr2 [Hcov2 Hst2]]]]]]].
+        destruct (Nat.eq_dec u2 u) as [->|Hneu].
+        -- right. right. exists u. split; [exact Hu2|]. apply in_app_iff. right. left. reflexivity.
+        -- right. left. exists r2, u2. ssimpl. repeat split; try assumption.
+           apply in_drop_use. split; [exact Hr2|congruence].
+      * right. right. destruct H3 as [u3 [Hu3 Hl3]]. exists u3. split; [exact Hu3|]. apply in_app_iff. left. exact Hl3.
+  - (* Request *)
+    destruct (ph s c); try discriminate. injection H as <-. exact T.
+Qed.
+
+(* ---- after a successful, undisturbed use: every live pool connection is in the keyspace ---- *)
+
+
+Definition conn_ok (w : list (nat * ks)) (ack : option name) (k : ks) (u : nat) (r : use_rec) (c : nat) : Prop :=
+  let good := w = [] /\ (match ack with Some n => eq_ci n (fst k) | None => false end) = true in
+  if mem c (cov r) then
+    match stat r c with
+    | NotSent => forall f, In f w -> fst f <> u
+    | Sent => exists zs, w = zs ++ [(u, k)] /\ forall f, In f zs -> fst f <> u
+    | Done COk => good
+    | Done (CBroken _) => False
+    | Done (CErr _) => True
+    end
+  else good.
+
+Definition conn_good (s : pool) (k : ks) (u : nat) (c : nat) : Prop :=
+  match pending s with
+  | [] => wire s c = [] /\ matchesb s c k = true
+  | [r] => conn_ok (wire s c) (acked s c) k u r c
+  | _ => False
+  end.
+
+Record QInv (k : ks) (u : nat) (s : pool) : Prop := mkQ {
+  q_cur : cur s = Some k;
+  q_pend : pending s = [] \/
+           exists r, pending s = [r] /\ uid r = u /\ uks r = k /\
+                     (forall c, In c (cov r) -> ph s c = InPool \/ ph s c = Gone) /\
+                     (forall a, ~ In (u, a) (log s));
+  q_conn : forall c, ph s c = InPool -> alive s c = true -> conn_good s k u c
+}.
+
+Definition failed (u : nat) (s : pool) : Prop :=
+  pending s = [] /\ (In (u, PAErr) (log s) /\ forall a, In (u, a) (log s) -> a = PAErr).
+
+Definition settled (k : ks) (s : pool) : Prop :=
+  cur s = Some k /\ pending s = [] /\
+  forall c, ph s c = InPool -> alive s c = true -> wire s c = [] /\ matchesb s c k = true.
+
+Lemma conn_good_ext s s' k u c :
+  wire s' c = wire s c -> acked s' c = acked s c -> pending s' = pending s ->
+  conn_good s k u c -> conn_good s' k u c.
+Proof.
+  unfold conn_good, matchesb. intros -> -> ->. tauto.
+Qed.
+
+(* a step that only changes phases (towards InPool only for [c0], whose goodness is given) *)
+Lemma QInv_phases s f k u :
+  QInv k u s ->
+  (forall c, f c = InPool -> ph s c = InPool \/ (alive s c = true -> conn_good s k u c)) ->
+  (forall c, ph s c = InPool \/ ph s c = Gone -> f c = InPool \/ f c = Gone) ->
+  QInv k u (set_ph s f).
+Proof.
+  intros Q Hin Hcov. constructor; ssimpl.
+  - apply (q_cur k u s Q).
+  - destruct (q_pend k u s Q) as [H|[r [H1 [H2 [H3 [H4 H5]]]]]]; [left; exact H|right].
+    exists r. repeat split; try assumption. intros c Hc. apply Hcov, H4, Hc.
+  - intros c Hc Ha. destruct (Hin c Hc) as [H|H].
+    + apply (conn_good_ext s); try reflexivity. apply (q_conn k u s Q c H Ha).
+    + apply (conn_good_ext s); try reflexivity. apply H, Ha.
+Qed.
+
+Lemma QInv_accept_path s c reshard a s' k u :
+  GInv s -> QInv k u s -> flying (ph s c) ->
+  (alive s c = true -> matchesb s c k = true) ->
+  accept_path s c reshard a = Some s' -> QInv k u s'.
+Proof.
+  intros G Q Hf Hm H. unfold accept_path in H.
+  destruct (reshard && negb (is_accept a)); [discriminate|]. injection H as <-.
+  destruct (g_pre s G c (flying_pre _ Hf)) as [Hw Hnc].
+  apply QInv_phases; [exact Q| |].
+  - intros x Hx. destruct (Nat.eq_dec x c) as [->|Hne].
+    + right. intros Ha. unfold conn_good.
+      destruct (q_pend k u s Q) as [Hp|[r [Hp _]]]; rewrite Hp.
+      * split; [exact Hw|apply Hm, Ha].
+      * unfold conn_ok. destruct (mem c (cov r)) eqn:M.
+        -- exfalso. apply mem_In in M. apply (Hnc r); [rewrite Hp; left; reflexivity|exact M].
+        -- split; [exact Hw|]. specialize (Hm Ha). unfold matchesb in Hm. exact Hm.
+    + rewrite upd_other in Hx by exact Hne. left. destruct reshard; [|exact Hx].
+      unfold resharded in Hx. destruct (ph s x); try discriminate.
+  - intros x Hx. destruct (Nat.eq_dec x c) as [->|Hne].
+    + destruct Hx as [Hx|Hx]; rewrite Hx in Hf; contradiction.
+    + rewrite upd_other by exact Hne. destruct reshard.
+      * unfold resharded. destruct Hx as [Hx|Hx]; rewrite Hx; right; reflexivity.
+      * exact Hx.
+Qed.
+
+Lemma QInv_set_told s f k u : QInv k u s -> QInv k u (set_told s f).
+Proof.
+  intros Q. constructor; ssimpl; [apply (q_cur k u s Q)|apply (q_pend k u s Q)|].
+  intros c Hc Ha. apply (conn_good_ext s); try reflexivity. apply (q_conn k u s Q c Hc Ha).
+Qed.
+
+Lemma QInv_move s c p k u :
+  QInv k u s -> flying (ph s c) -> p <> InPool -> QInv k u (set_ph s (upd (ph s) c p)).
+Proof.
+  intros Q Hf Hp. apply QInv_phases; [exact Q| |].
+  - intros x Hx. destruct (Nat.eq_dec x c) as [->|Hne].
+    + rewrite upd_same in Hx. contradiction.
+    + rewrite upd_other in Hx by exact Hne. left. exact Hx.
+  - intros x Hx. destruct (Nat.eq_dec x c) as [->|Hne].
+    + destruct Hx as [Hx|Hx]; rewrite Hx in Hf; contradiction.
+    + rewrite upd_other by exact Hne. exact Hx.
+Qed.
+
+Lemma QInv_ready_path s c evks reshard a s' k u :
+  GInv s -> QInv k u s -> flying (ph s c) ->
+  (evks = Some k -> alive s c = true -> matchesb s c k = true) ->
+  ready_path s c evks reshard a = Some s' -> QInv k u s'.
+Proof.
+  intros G Q Hf Hm H. unfold ready_path in H. rewrite (q_cur k u s Q) in H.
+  destruct (evks_differs evks k) eqn:D.
+  - injection H as <-. apply QInv_set_told. apply QInv_move; [exact Q|exact Hf|discriminate].
+  - eapply QInv_accept_path; [exact G|exact Q|exact Hf| |exact H].
+    apply Hm. unfold evks_differs in D. destruct evks as [k'|]; [|discriminate].
+    apply negb_false_iff, ks_eqb_eq in D. subst. reflexivity.
+Qed.
+
+(* set_acked on a connection that is not in the pool *)
+Lemma QInv_set_acked s c v k u : QInv k u s -> ph s c <> InPool -> QInv k u (set_acked s (upd (acked s) c v)).
+Proof.
+  intros Q Hc. constructor; ssimpl; [apply (q_cur k u s Q)|apply (q_pend k u s Q)|].
+  intros x Hx Ha. apply (conn_good_ext s); try reflexivity.
+  - ssimpl. rewrite upd_other; [reflexivity|]. intros ->. contradiction.
+  - apply (q_conn k u s Q x Hx Ha).
+Qed.
+
+Lemma find_use_single r u r' : find_use [r] u = Some r' -> r' = r /\ uid r = u.
+Proof.
+  unfold find_use. cbn [find]. destruct (Nat.eqb (uid r) u) eqn:E; [|discriminate].
+  intros H. injection H as <-. apply Nat.eqb_eq in E. split; [reflexivity|exact E].
+Qed.
+
+Lemma failed_step u s l s' : failed u s -> is_use l = false -> step s l = Some s' -> failed u s'.
+Proof.
+  intros [Hp Hl] Hu H. unfold failed. destruct l; cbn [step is_use] in H, Hu; try discriminate.
+  - injection H as <-. ssimpl. split; assumption.
+  - destruct (ph s c); try discriminate. destruct ok.
+    + unfold ready_path, accept_path in H.
+      destruct (cur s) as [k|].
+      * destruct (evks_differs None k); [injection H as <-; ssimpl; split; assumption|].
+        destruct (reshard && negb (is_accept a)); [discriminate|]. injection H as <-. ssimpl. split; assumption.
+      * destruct (reshard && negb (is_accept a)); [discriminate|]. injection H as <-. ssimpl. split; assumption.
+    + injection H as <-. ssimpl. split; assumption.
+  - destruct (ph s c); try discriminate. destruct r as [rep|].
+    + destruct (alive s c); [|discriminate].
+      set (s1 := match rep with RSetKeyspace n => set_acked s (upd (acked s) c (Some n)) | _ => s end) in *.
+      assert (P1 : pending s1 = pending s) by (subst s1; destruct rep; reflexivity).
+      assert (L1 : log s1 = log s) by (subst s1; destruct rep; reflexivity).
+      destruct (verify_result k rep).
+      * unfold ready_path, accept_path in H.
+        destruct (cur s1) as [k'|].
+        -- destruct (evks_differs (Some k) k'); [injection H as <-; ssimpl; rewrite P1, L1; split; assumption|].
+           destruct (reshard && negb (is_accept a)); [discriminate|]. injection H as <-. ssimpl. rewrite P1, L1. split; assumption.
+        -- destruct (reshard && negb (is_accept a)); [discriminate|]. injection H as <-. ssimpl. rewrite P1, L1. split; assumption.
+      * injection H as <-. ssimpl. rewrite P1, L1. split; assumption.
+      * injection H as <-. ssimpl. rewrite P1, L1. split; assumption.
+      * injection H as <-. ssimpl. rewrite P1, L1. split; assumption.
+    + injection H as <-. ssimpl. split; assumption.
+  - injection H as <-. ssimpl. split; assumption.
+  - rewrite Hp in H. discriminate.
+  - destruct (alive s c); [|discriminate]. destruct (wire s c) as [|[u0 k0] rest]; [discriminate|].
+    injection H as <-. ssimpl.
+    assert (P1 : pending (match r with RSetKeyspace n => set_acked s (upd (acked s) c (Some n)) | _ => s end) = pending s) by (destruct r; reflexivity).
+    assert (L1 : log (match r with RSetKeyspace n => set_acked s (upd (acked s) c (Some n)) | _ => s end) = log s) by (destruct r; reflexivity).
+    rewrite P1, L1, Hp. split; [reflexivity|exact Hl].
+  - destruct (alive s c && (c <? next s)); [|discriminate]. injection H as <-. ssimpl. rewrite Hp. split; [reflexivity|exact Hl].
+  - destruct (alive s c); [discriminate|]. destruct (ph s c); try discriminate; injection H as <-; ssimpl; split; assumption.
+  - rewrite Hp in H. discriminate.
+  - rewrite Hp in H. discriminate.
+  - destruct (ph s c); try discriminate. injection H as <-. split; assumption.
+Qed.
+
+Lemma matchesb_of_verify s c n k :
+  verify_result k (RSetKeyspace n) = VOk -> acked s c = Some n -> matchesb s c k = true.
+Proof.
+  cbn [verify_result]. intros H E. unfold matchesb. rewrite E.
+  destruct (eq_ci n (fst k)); [reflexivity|discriminate].
+Qed.
+
+Lemma answer_noerr_all r :
+  cov r <> [] -> answer_of r <> PAErr ->
+  forall c, In c (cov r) -> is_err (outcome (stat r c)) = false.
+Proof.
+  intros Hne Ha c Hc. unfold answer_of in Ha.
+  destruct (cov r) as [|c0 l] eqn:E; [contradiction|]. rewrite <- E in *.
+  assert (Hall : forallb (fun x => negb (is_err x)) (map (fun c => outcome (stat r c)) (cov r)) = true).
+  { apply use_keyspace_result_noerr. intros t Ht. rewrite Ht in Ha. apply Ha. reflexivity. }
+  rewrite forallb_forall in Hall. specialize (Hall (outcome (stat r c))).
+  apply negb_true_iff. apply Hall. apply in_map_iff. exists c. split; [reflexivity|exact Hc].
+Qed.
+
+Lemma QInv_step k u s l s' :
+  GInv s -> QInv k u s -> is_use l = false -> step s l = Some s' -> QInv k u s' \/ failed u s'.
+Proof.
+  intros G Q Hu H. destruct l; cbn [step is_use] in H, Hu; try discriminate.
+  - (* OpenStart *)
+    left. injection H as <-.
+    assert (Q' : QInv k u (set_ph s (upd (ph s) (next s) Opening))).
+    { apply QInv_phases; [exact Q| |].
+      - intros x Hx. destruct (Nat.eq_dec x (next s)) as [->|Hne].
+        + rewrite upd_same in Hx. discriminate.
+        + rewrite upd_other in Hx by exact Hne. left. exact Hx.
+      - intros x Hx. destruct (Nat.eq_dec x (next s)) as [->|Hne].
+        + rewrite (g_unborn s G (next s)) in Hx by lia. destruct Hx; discriminate.
+        + rewrite upd_other by exact Hne. exact Hx. }
+    constructor; ssimpl; [apply (q_cur _ _ _ Q')|apply (q_pend _ _ _ Q')|].
+    intros c Hc Ha. destruct (Nat.eq_dec c (next s)) as [->|Hne].
+    + rewrite upd_same in Hc. discriminate.
+    + rewrite upd_other in Ha by exact Hne.
+      apply (conn_good_ext (set_ph s (upd (ph s) (next s) Opening))); try reflexivity.
+      apply (q_conn _ _ _ Q' c Hc Ha).
+  - (* OpenReady *)
+    left. destruct (ph s c) eqn:E; try discriminate. destruct ok.
+    + eapply QInv_ready_path; [exact G|exact Q|rewrite E; exact I| |exact H]. intros; discriminate.
+    + injection H as <-. apply QInv_move; [exact Q|rewrite E; exact I|discriminate].
+  - (* SetKsDone *)
+    left. destruct (ph s c) eqn:E; try discriminate. destruct r as [rep|].
+    + destruct (alive s c) eqn:Al; [|discriminate].
+      set (s1 := match rep with RSetKeyspace n => set_acked s (upd (acked s) c (Some n)) | _ => s end) in *.
+      assert (Hnp : ph s c <> InPool) by (rewrite E; discriminate).
+      assert (G1 : GInv s1) by (subst s1; destruct rep; try apply GInv_set_acked; exact G).
+      assert (Q1 : QInv k u s1) by (subst s1; destruct rep; try apply QInv_set_acked; assumption).
+      assert (E1 : ph s1 c = Setting k0) by (subst s1; destruct rep; exact E).
+      destruct (verify_result k0 rep) eqn:V.
+      * eapply QInv_ready_path; [exact G1|exact Q1|rewrite E1; exact I| |exact H].
+        intros Hk _. injection Hk as ->. destruct rep as [n| |]; try discriminate.
+        apply (matchesb_of_verify s1 c n k V). subst s1. ssimpl. apply upd_same.
+      * injection H as <-. apply QInv_move; [exact Q1|rewrite E1; exact I|discriminate].
+      * injection H as <-. apply QInv_move; [exact Q1|rewrite E1; exact I|discriminate].
+      * injection H as <-. apply QInv_move; [exact Q1|rewrite E1; exact I|discriminate].
+    + injection H as <-.
+      pose proof (QInv_move s c Gone k u Q ltac:(rewrite E; exact I) ltac:(discriminate)) as Q'.
+      constructor; ssimpl; [apply (q_cur _ _ _ Q')|apply (q_pend _ _ _ Q')|].
+      intros x Hx Ha. destruct (Nat.eq_dec x c) as [->|Hne].
+      * rewrite upd_same in Ha. discriminate.
+      * rewrite upd_other in Ha by exact Hne.
+        apply (conn_good_ext (set_ph s (upd (ph s) c Gone))); try reflexivity.
+        apply (q_conn _ _ _ Q' x Hx Ha).
+  - (* ClearExcess *)
+    left. injection H as <-. apply QInv_phases; [exact Q| |].
+    + intros x Hx. left. destruct (ph s x); try discriminate. reflexivity.
+    + intros x [Hx|Hx]; rewrite Hx; [left|right]; reflexivity.
+  - (* UseSend *)
+    left. destruct (q_pend k u s Q) as [Hp|[r [Hp [Hur [Hkr [Hcov Hlog]]]]]]; [rewrite Hp in H; discriminate|].
+    rewrite Hp in H. destruct (find_use [r] u0) as [r'|] eqn:F; [|discriminate].
+    apply find_use_single in F. destruct F as [-> Hu0]. assert (Eu : u0 = u) by congruence. clear Hu0. subst u0.
+    destruct (mem c (cov r)) eqn:M; [|discriminate].
+    destruct (stat r c) eqn:St; try discriminate.
+    assert (Hupd : forall v, upd_use [r] u (fun r0 => set_stat r0 c v) = [set_stat r c v]).
+    { intros v. unfold upd_use. cbn [map]. rewrite Hur, Nat.eqb_refl. reflexivity. }
+    destruct (alive s c) eqn:Al; injection H as <-; cbn [upd_use map]; rewrite ?Hur, Nat.eqb_refl.
+    + constructor; ssimpl; [apply (q_cur _ _ _ Q)| |].
+      * right. exists (set_stat r c Sent). ssimpl. repeat split; try assumption.
+      * intros x Hx Ha. pose proof (q_conn k u s Q x Hx Ha) as Hg. unfold conn_good in *. rewrite Hp in Hg. ssimpl.
+        unfold conn_ok in *. ssimpl. destruct (Nat.eq_dec x c) as [->|Hne].
+        -- rewrite !upd_same. rewrite M in *. rewrite St in Hg. rewrite Hkr.
+           exists (wire s c). split; [reflexivity|exact Hg].
+        -- rewrite !upd_other by exact Hne. exact Hg.
+    + constructor; ssimpl; [apply (q_cur _ _ _ Q)| |].
+      * right. exists (set_stat r c (Done (CBroken 0))). ssimpl. repeat split; try assumption.
+      * intros x Hx Ha. pose proof (q_conn k u s Q x Hx Ha) as Hg. unfold conn_good in *. rewrite Hp in Hg. ssimpl.
+        unfold conn_ok in *. ssimpl. destruct (Nat.eq_dec x c) as [->|Hne]; [congruence|].
+        rewrite !upd_other by exact Hne. exact Hg.
+  - (* UseAck *)
+    left. destruct (alive s c) eqn:Al; [|discriminate].
+    destruct (wire s c) as [|[u0 k0] rest] eqn:W; [discriminate|].
+    injection H as <-.
+    set (s1 := match r with RSetKeyspace n => set_acked s (upd (acked s) c (Some n)) | _ => s end) in *.
+    assert (C1 : cur s1 = cur s) by (subst s1; destruct r; reflexivity).
+    assert (P1 : pending s1 = pending s) by (subst s1; destruct r; reflexivity).
+    assert (L1 : log s1 = log s) by (subst s1; destruct r; reflexivity).
+    assert (W1 : wire s1 = wire s) by (subst s1; destruct r; reflexivity).
+    assert (H1 : ph s1 = ph s) by (subst s1; destruct r; reflexivity).
+    assert (A1 : alive s1 = alive s) by (subst s1; destruct r; reflexivity).
+    assert (K1 : forall x, x <> c -> acked s1 x = acked s x).
+    { intros x Hne. subst s1. destruct r; try reflexivity. ssimpl. apply upd_other, Hne. }
+    destruct (q_pend k u s Q) as [Hp|[r0 [Hp [Hur [Hkr [Hcov Hlog]]]]]].
+    + (* settled: c cannot be a live pool connection *)
+      constructor; ssimpl; rewrite ?C1, ?P1, ?L1, ?H1, ?A1, ?W1, ?Hp; [apply (q_cur _ _ _ Q)|left; reflexivity|].
+      cbn [upd_use map]. intros x Hx Ha. pose proof (q_conn k u s Q x Hx Ha) as Hg.
+      unfold conn_good in *. ssimpl. rewrite Hp in Hg. rewrite ?P1, ?Hp. cbn [upd_use map].
+      destruct (Nat.eq_dec x c) as [->|Hne]; [destruct Hg as [Hg _]; congruence|].
+      rewrite upd_other by exact Hne. unfold matchesb in *. ssimpl. rewrite K1 by exact Hne. exact Hg.
+    + set (res := match verify_result k0 r with VOk => COk | _ => CErr 0 end) in *.
+      set (f := fun r1 : use_rec => match stat r1 c with Sent => set_stat r1 c (Done res) | _ => r1 end).
+      set (r0' := if Nat.eqb (uid r0) u0 then f r0 else r0).
+      assert (Hupd : upd_use (pending s1) u0 f = [r0']) by (rewrite P1, Hp; reflexivity).
+      assert (Hsh : same_shape r0 r0').
+      { subst r0' f. cbn beta. destruct (Nat.eqb (uid r0) u0); [|apply same_shape_refl].
+        destruct (stat r0 c); try apply same_shape_refl. apply same_shape_set_stat. }
+      destruct Hsh as [S1 [S2 S3]].
+      constructor; ssimpl; rewrite ?C1, ?L1, ?H1, ?A1, ?W1; [apply (q_cur _ _ _ Q)| |].
+      * right. exists r0'. rewrite Hupd. repeat split; try congruence; [rewrite S3; exact Hcov|exact Hlog].
+      * intros x Hx Ha. pose proof (q_conn k u s Q x Hx Ha) as Hg.
+        unfold conn_good in *. ssimpl. rewrite Hp in Hg. rewrite Hupd.
+        unfold conn_ok in *. rewrite S3.
+        destruct (Nat.eq_dec x c) as [->|Hne].
+        -- rewrite upd_same. rewrite W in Hg.
+           destruct (mem c (cov r0)) eqn:M; [|destruct Hg as [Hg _]; discriminate].
+           destruct (stat r0 c) eqn:St.
+           ++ (* NotSent: the answered frame is a stale one *)
+              assert (Hne0 : u0 <> u) by (apply (Hg (u0, k0)); left; reflexivity).
+              subst r0'. destruct (Nat.eqb (uid r0) u0) eqn:Eq; [apply Nat.eqb_eq in Eq; congruence|].
+              rewrite St. intros f0 Hf0. apply Hg. right. exact Hf0.
+           ++ destruct Hg as [zs [Hz Hzs]]. destruct zs as [|z zs].
+              ** cbn [app] in Hz. injection Hz as Eu Ek Er. subst u0 k0 rest.
+                 subst r0'. rewrite Hur, Nat.eqb_refl. subst f. cbn beta. rewrite St. ssimpl. rewrite upd_same.
+                 subst res. destruct (verify_result k r) eqn:V; try exact I.
+                 split; [reflexivity|]. destruct r as [n| |]; try discriminate.
+                 subst s1. ssimpl. rewrite upd_same. cbn [verify_result] in V.
+                 destruct (eq_ci n (fst k)); [reflexivity|discriminate].
+              ** cbn [app] in Hz. injection Hz as Ez Er. subst z rest.
+                 assert (Hne0 : u0 <> u) by (apply (Hzs (u0, k0)); left; reflexivity).
+                 subst r0'. destruct (Nat.eqb (uid r0) u0) eqn:Eq; [apply Nat.eqb_eq in Eq; congruence|].
+                 rewrite St. exists zs. split; [reflexivity|]. intros f0 Hf0. apply Hzs. right. exact Hf0.
+           ++ assert (Hst' : stat r0' c = Done r1).
+              { subst r0' f. cbn beta. destruct (Nat.eqb (uid r0) u0); [rewrite St|]; exact St. }
+              rewrite Hst'. destruct r1; try exact Hg. destruct Hg as [Hg _]. discriminate.
+        -- rewrite upd_other by exact Hne. rewrite K1 by exact Hne.
+           assert (Hst' : stat r0' x = stat r0 x).
+           { subst r0' f. cbn beta. destruct (Nat.eqb (uid r0) u0); [|reflexivity].
+             destruct (stat r0 c); try reflexivity. ssimpl. apply upd_other, Hne. }
+           rewrite Hst'. exact Hg.
+  - (* ConnBreak *)
+    left. destruct (alive s c && (c <? next s)); [|discriminate]. injection H as <-.
+    set (g := fun r : use_rec => match stat r c with Sent => set_stat r c (Done (CBroken 0)) | _ => r end).
+    assert (Hsh : forall r0, same_shape r0 (g r0)).
+    { intros r0. unfold g. destruct (stat r0 c); try apply same_shape_refl. apply same_shape_set_stat. }
+    constructor; ssimpl; [apply (q_cur _ _ _ Q)| |].
+    + destruct (q_pend k u s Q) as [Hp|[r0 [Hp [Hur [Hkr [Hcov Hlog]]]]]]; [left; rewrite Hp; reflexivity|right].
+      exists (g r0). rewrite Hp. destruct (Hsh r0) as [S1 [S2 S3]].
+      repeat split; try congruence; [rewrite S3; exact Hcov|exact Hlog].
+    + intros x Hx Ha. destruct (Nat.eq_dec x c) as [->|Hne]; [rewrite upd_same in Ha; discriminate|].
+      rewrite upd_other in Ha by exact Hne. pose proof (q_conn k u s Q x Hx Ha) as Hg.
+      unfold conn_good in *. ssimpl. rewrite upd_other by exact Hne.
+      destruct (q_pend k u s Q) as [Hp|[r0 [Hp _]]]; rewrite Hp in *; cbn [map]; [exact Hg|].
+      unfold conn_ok in *. destruct (Hsh r0) as [S1 [S2 S3]]. rewrite S3.
+      assert (Hst' : stat (g r0) x = stat r0 x).
+      { unfold g. destruct (stat r0 c); try reflexivity. ssimpl. apply upd_other, Hne. }
+      rewrite Hst'. exact Hg.
+  - (* ConnError *)
+    left. destruct (alive s c); [discriminate|].
+    assert (Hgo : ph s c = InPool \/ ph s c = Excess -> QInv k u (set_ph s (upd (ph s) c Gone))).
+    { intros Hc. apply QInv_phases; [exact Q| |].
+      - intros x Hx. destruct (Nat.eq_dec x c) as [->|Hne]; [rewrite upd_same in Hx; discriminate|].
+        rewrite upd_other in Hx by exact Hne. left. exact Hx.
+      - intros x Hx. destruct (Nat.eq_dec x c) as [->|Hne]; [rewrite upd_same; right; reflexivity|].
+        rewrite upd_other by exact Hne. exact Hx. }
+    destruct (ph s c); try discriminate; injection H as <-; apply Hgo; auto.
+  - (* UseDone *)
+    destruct (q_pend k u s Q) as [Hp|[r [Hp [Hur [Hkr [Hcov Hlog]]]]]]; [rewrite Hp in H; discriminate|].
+    rewrite Hp in H. destruct (find_use [r] u0) as [r'|] eqn:F; [|discriminate].
+    apply find_use_single in F. destruct F as [-> Hu0]. assert (Eu : u0 = u) by congruence. clear Hu0. subst u0.
+    destruct (forallb (fun c => is_done (stat r c)) (cov r)) eqn:Fd; [|discriminate].
+    destruct (panswer_eqb a (answer_of r)) eqn:Pa; [|discriminate].
+    injection H as <-.
+    assert (Hdrop : drop_use [r] u = []).
+    { unfold drop_use. cbn [filter]. rewrite Hur, Nat.eqb_refl. reflexivity. }
+    assert (Ha : a = answer_of r) by (destruct a, (answer_of r); try discriminate; reflexivity).
+    destruct (answer_of r) eqn:An.
+    + left. constructor; ssimpl; rewrite ?Hdrop, ?Hur, ?Nat.eqb_refl; cbn [negb]; [apply (q_cur _ _ _ Q)|left; reflexivity|].
+      intros x Hx Hal. pose proof (q_conn k u s Q x Hx Hal) as Hg. unfold conn_good in *. rewrite Hp in Hg.
+      ssimpl. rewrite ?Hdrop, ?Hur, ?Nat.eqb_refl; cbn [negb]. unfold matchesb. unfold conn_ok in Hg.
+      destruct (mem x (cov r)) eqn:M; [|exact Hg]. apply mem_In in M.
+      rewrite forallb_forall in Fd. specialize (Fd x M).
+      assert (Hne : cov r <> []) by (intros E; rewrite E in M; contradiction).
+      pose proof (answer_noerr_all r Hne ltac:(rewrite An; discriminate) x M) as Hno.
+      destruct (stat r x) as [| |[|t|t]]; try discriminate; try contradiction. exact Hg.
+    + left. constructor; ssimpl; rewrite ?Hdrop, ?Hur, ?Nat.eqb_refl; cbn [negb]; [apply (q_cur _ _ _ Q)|left; reflexivity|].
+      intros x Hx Hal. pose proof (q_conn k u s Q x Hx Hal) as Hg. unfold conn_good in *. rewrite Hp in Hg.
+      ssimpl. rewrite ?Hdrop, ?Hur, ?Nat.eqb_refl; cbn [negb]. unfold matchesb. unfold conn_ok in Hg.
+      destruct (mem x (cov r)) eqn:M; [|exact Hg]. apply mem_In in M.
+      rewrite forallb_forall in Fd. specialize (Fd x M).
+      assert (Hne : cov r <> []) by (intros E; rewrite E in M; contradiction).
+      pose proof (answer_noerr_all r Hne ltac:(rewrite An; discriminate) x M) as Hno.
+      destruct (stat r x) as [| |[|t|t]]; try discriminate; try contradiction. exact Hg.
+    + right. split; ssimpl; rewrite ?Hdrop, ?Hur, ?Nat.eqb_refl; cbn [negb]; [reflexivity|]. split.
+      * apply in_app_iff. right. left. rewrite Ha. reflexivity.
+      * intros a0 Hin. apply in_app_iff in Hin.
+        destruct Hin as [Hin|[Heq|[]]]; [exfalso; exact (Hlog a0 Hin)|]. injection Heq as <-. exact Ha.
+  - (* UseTimeout *)
+    right. destruct (q_pend k u s Q) as [Hp|[r [Hp [Hur [Hkr [Hcov Hlog]]]]]]; [rewrite Hp in H; discriminate|].
+    rewrite Hp in H. destruct (find_use [r] u0) as [r'|] eqn:F; [|discriminate].
+    apply find_use_single in F. destruct F as [-> Hu0]. assert (Eu : u0 = u) by congruence. clear Hu0. subst u0.
+    destruct (cov r); [discriminate|]. injection H as <-.
+    split; ssimpl.
+    + unfold drop_use. cbn [filter]. rewrite ?Hur, ?Nat.eqb_refl. reflexivity.
+    + split; [apply in_app_iff; right; left; reflexivity|]. intros a0 Hin. apply in_app_iff in Hin.
+      destruct Hin as [Hin|[Heq|[]]]; [exfalso; exact (Hlog a0 Hin)|]. injection Heq as <-. reflexivity.
+  - (* Request *)
+    left. destruct (ph s c); try discriminate. injection H as <-. exact Q.
+Qed.
+
+
+(* ---- runs ---------------------------------------------------------------------------------- *)
+
+Lemma run_inv (P : pool -> Prop) (okl : label -> bool) :
+  (forall s l s', P s -> okl l = true -> step s l = Some s' -> P s') ->
+  forall ls s s', forallb okl ls = true -> P s -> run s ls = Some s' -> P s'.
+Proof.
+  intros Hstep ls. induction ls as [|l r IH]; intros s s' Hok Hp Hr; cbn [run] in Hr.
+  - injection Hr as <-. exact Hp.
+  - cbn [forallb] in Hok. apply andb_true_iff in Hok. destruct Hok as [Hl Hok].
+    destruct (step s l) as [s1|] eqn:E; [|discriminate].
+    apply (IH s1 s' Hok); [|exact Hr]. eapply Hstep; eassumption.
+Qed.
+
+Lemma GInv_reachable k0 s : reachable k0 s -> GInv s.
+Proof.
+  intros [ls Hr]. apply (run_inv GInv (fun _ => true)) with (ls := ls) (s := init k0).
+  - intros s0 l s1 G _ H. eapply GInv_step; eassumption.
+  - apply forallb_forall. reflexivity.
+  - apply GInv_init.
+  - exact Hr.
+Qed.
+
+Lemma GQ_run k u ls s s' :
+  no_use ls = true -> GInv s -> (QInv k u s \/ failed u s) -> run s ls = Some s' ->
+  GInv s' /\ (QInv k u s' \/ failed u s').
+Proof.
+  intros Hn G Q Hr.
+  apply (run_inv (fun s => GInv s /\ (QInv k u s \/ failed u s)) (fun l => negb (is_use l)))
+    with (ls := ls) (s := s); [|exact Hn|split; assumption|exact Hr].
+  intros s0 l s1 [G0 Q0] Hl H. apply negb_true_iff in Hl. split; [eapply GInv_step; eassumption|].
+  destruct Q0 as [Q0|F0]; [eapply QInv_step; eassumption|right; eapply failed_step; eassumption].
+Qed.
+
+Lemma QInv_after_use s raw cs s' :
+  GInv s -> pending s = [] -> valid_name raw -> step s (UseKeyspace raw cs) = Some s' ->
+  QInv (raw, cs) (unext s) s'.
+Proof.
+  intros G Hp Hv H. cbn [step] in H.
+  assert (M : make_verified raw cs = Ok (raw, cs)) by (apply make_verified_ok; split; [reflexivity|exact Hv]).
+  rewrite M in H. injection H as <-. rewrite Hp. cbn [app].
+  constructor; ssimpl.
+  - reflexivity.
+  - right. eexists. split; [reflexivity|]. ssimpl. repeat split.
+    + intros c Hc. apply in_pool_conns in Hc. left. apply Hc.
+    + intros a Hin. pose proof (g_log s G _ _ Hin). lia.
+  - intros c Hc Ha. unfold conn_good. ssimpl. unfold conn_ok. ssimpl.
+    assert (Hin : In c (pool_conns s)).
+    { apply in_pool_conns. split; [|exact Hc].
+      destruct (Nat.lt_ge_cases c (next s)) as [Hl|Hl]; [exact Hl|].
+      rewrite (g_unborn s G c Hl) in Hc. discriminate. }
+    apply mem_In in Hin. rewrite Hin. intros [u0 k0] Hf. cbn [fst].
+    pose proof (g_wire s G c u0 k0 Hf). lia.
+Qed.
+
+Lemma after_success k0 ls1 s1 raw cs s2 ls2 s3 a c :
+  run (init k0) ls1 = Some s1 -> pending s1 = [] ->
+  valid_name raw -> step s1 (UseKeyspace raw cs) = Some s2 ->
+  no_use ls2 = true -> run s2 ls2 = Some s3 ->
+  In (unext s1, a) (log s3) -> a <> PAErr ->
+  ph s3 c = InPool -> alive s3 c = true ->
+  wire s3 c = [] /\ matchesb s3 c (raw, cs) = true.
+Proof.
+  intros R1 Hp Hv S Hn R2 Hlog Ha Hc Hal.
+  assert (G1 : GInv s1) by (apply (GInv_reachable k0); exists ls1; exact R1).
+  assert (G2 : GInv s2) by (eapply GInv_step; eassumption).
+  pose proof (QInv_after_use s1 raw cs s2 G1 Hp Hv S) as Q2.
+  destruct (GQ_run (raw, cs) (unext s1) ls2 s2 s3 Hn G2 (or_introl Q2) R2) as [G3 [Q3|F3]].
+  - destruct (q_pend _ _ _ Q3) as [Hp3|[r [_ [_ [_ [_ Hl]]]]]]; [|exfalso; exact (Hl a Hlog)].
+    pose proof (q_conn _ _ _ Q3 c Hc Hal) as Hg. unfold conn_good in Hg. rewrite Hp3 in Hg. exact Hg.
+  - destruct F3 as [_ [_ F3]]. exfalso. apply Ha. apply F3. exact Hlog.
+Qed.
+
+Lemma fresh_pool k ls s c :
+  no_use ls = true -> run (init (Some k)) ls = Some s ->
+  ph s c = InPool -> alive s c = true ->
+  wire s c = [] /\ matchesb s c k = true.
+Proof.
+  intros Hn R Hc Hal.
+  assert (Q0 : QInv k 0 (init (Some k))).
+  { constructor; cbn; [reflexivity|left; reflexivity|intros; discriminate]. }
+  assert (Hnil : pending s = [] /\ log s = []).
+  { apply (run_inv (fun s => pending s = [] /\ log s = []) (fun l => negb (is_use l)))
+      with (ls := ls) (s := init (Some k)); [|exact Hn|split; reflexivity|exact R].
+    intros s0 l s1 [P0 L0] Hl H. apply negb_true_iff in Hl.
+    assert (F : failed 0 s1 \/ True) by (right; exact I).
+    clear F. destruct l; cbn [step is_use] in H, Hl; try discriminate.
+    - injection H as <-. split; assumption.
+    - destruct (ph s0 c0); try discriminate. destruct ok.
+      + unfold ready_path, accept_path in H. destruct (cur s0) as [k1|].
+        * destruct (evks_differs None k1); [injection H as <-; split; assumption|].
+          destruct (reshard && negb (is_accept a)); [discriminate|]. injection H as <-. split; assumption.
+        * destruct (reshard && negb (is_accept a)); [discriminate|]. injection H as <-. split; assumption.
+      + injection H as <-. split; assumption.
+    - destruct (ph s0 c0); try discriminate. destruct r as [rep|].
+      + destruct (alive s0 c0); [|discriminate].
+        set (s1' := match rep with RSetKeyspace n => set_acked s0 (upd (acked s0) c0 (Some n)) | _ => s0 end) in *.
+        assert (P1 : pending s1' = pending s0) by (subst s1'; destruct rep; reflexivity).
+        assert (L1 : log s1' = log s0) by (subst s1'; destruct rep; reflexivity).
+        destruct (verify_result k0 rep).
+        * unfold ready_path, accept_path in H. destruct (cur s1') as [k1|].
+          -- destruct (evks_differs (Some k0) k1); [injection H as <-; ssimpl; rewrite P1, L1; split; assumption|].
+             destruct (reshard && negb (is_accept a)); [discriminate|]. injection H as <-. ssimpl. rewrite P1, L1. split; assumption.
+          -- destruct (reshard && negb (is_accept a)); [discriminate|]. injection H as <-. ssimpl. rewrite P1, L1. split; assumption.
+        * injection H as <-. ssimpl. rewrite P1, L1. split; assumption.
+        * injection H as <-. ssimpl. rewrite P1, L1. split; assumption.
+        * injection H as <-. ssimpl. rewrite P1, L1. split; assumption.
+      + injection H as <-. split; assumption.
+    - injection H as <-. split; assumption.
+    - rewrite P0 in H. discriminate.
+    - destruct (alive s0 c0); [|discriminate]. destruct (wire s0 c0) as [|[u0 k1] rest]; [discriminate|].
+      injection H as <-. ssimpl.
+      assert (P1 : pending (match r with RSetKeyspace n => set_acked s0 (upd (acked s0) c0 (Some n)) | _ => s0 end) = pending s0) by (destruct r; reflexivity).
+      assert (L1 : log (match r with RSetKeyspace n => set_acked s0 (upd (acked s0) c0 (Some n)) | _ => s0 end) = log s0) by (destruct r; reflexivity).
+      rewrite P1, L1, P0. split; [reflexivity|exact L0].
+    - destruct (alive s0 c0 && (c0 <? next s0)); [|discriminate]. injection H as <-. ssimpl. rewrite P0. split; [reflexivity|exact L0].
+    - destruct (alive s0 c0); [discriminate|]. destruct (ph s0 c0); try discriminate; injection H as <-; split; assumption.
+    - rewrite P0 in H. discriminate.
+    - rewrite P0 in H. discriminate.
+    - destruct (ph s0 c0); try discriminate. injection H as <-. split; assumption. }
+  destruct (GQ_run k 0 ls (init (Some k)) s Hn (GInv_init _) (or_introl Q0) R) as [G [Q|F]].
+  - pose proof (q_conn _ _ _ Q c Hc Hal) as Hg. unfold conn_good in Hg.
+    destruct Hnil as [Hp _]. rewrite Hp in Hg. exact Hg.
+  - destruct F as [_ [F _]]. destruct Hnil as [_ Hl]. rewrite Hl in F. contradiction.
+Qed.
+
+(* ====================================================================================== *)
+(* 3. cluster worker and trace acceptor                                                   *)
+(* ====================================================================================== *)
+
+
+(* ---- cluster worker ---------------------------------------------------------------------- *)
+
+Definition WInv (w : worker) : Prop :=
+  (forall n, In n (nodes w) -> n < nnext w) /\
+  match used w with
+  | None => fans w = [] /\ forall n, In n (nodes w) -> born w n = None
+  | Some k => exists pre u t, fans w = pre ++ [(u, k, t)] /\
+                              forall n, In n (nodes w) -> In n t \/ born w n = Some k
+  end.
+
+Lemma WInv_init n0 : WInv (winit n0).
+Proof.
+  split; cbn.
+  - intros n Hn. apply in_seq in Hn. lia.
+  - split; [reflexivity|]. intros; reflexivity.
+Qed.
+
+Lemma mem_false c l : mem c l = false <-> ~ In c l.
+Proof.
+  split.
+  - intros H Hin. apply mem_In in Hin. congruence.
+  - intros H. destruct (mem c l) eqn:E; [|reflexivity]. apply mem_In in E. contradiction.
+Qed.
+
+Lemma WInv_step w l : WInv w -> WInv (wstep w l).
+Proof.
+  intros [Hlt Hu]. destruct l as [k|keep nnew]; cbn [wstep].
+  - split; cbn; [exact Hlt|].
+    exists (fans w), (List.length (fans w)), (nodes w). split; [reflexivity|]. intros n Hn. left. exact Hn.
+  - split; cbn [nodes nnext used born fans].
+    + intros n Hn. apply in_app_iff in Hn. destruct Hn as [Hn|Hn].
+      * apply filter_In in Hn. destruct Hn as [Hn _]. specialize (Hlt n Hn). lia.
+      * apply in_seq in Hn. lia.
+    + assert (Hold : forall n, In n (nodes w) -> mem n (seq (nnext w) nnew) = false).
+      { intros n Hn. apply mem_false. intros Hin. apply in_seq in Hin. specialize (Hlt n Hn). lia. }
+      destruct (used w) as [k|].
+      * destruct Hu as [pre [u [t [Hf Hn]]]]. exists pre, u, t. split; [exact Hf|].
+        intros n Hin. apply in_app_iff in Hin. destruct Hin as [Hin|Hin].
+        -- apply filter_In in Hin. destruct Hin as [Hin _]. rewrite (Hold n Hin). apply Hn, Hin.
+        -- right. apply mem_In in Hin. rewrite Hin. reflexivity.
+      * destruct Hu as [Hf Hn]. split; [exact Hf|].
+        intros n Hin. apply in_app_iff in Hin. destruct Hin as [Hin|Hin].
+        -- apply filter_In in Hin. destruct Hin as [Hin _]. rewrite (Hold n Hin). apply Hn, Hin.
+        -- apply mem_In in Hin. rewrite Hin. reflexivity.
+Qed.
+
+Lemma WInv_run ls w : WInv w -> WInv (wrun w ls).
+Proof.
+  revert w. induction ls as [|l r IH]; intros w H; cbn [wrun fold_left]; [exact H|].
+  apply IH. apply WInv_step, H.
+Qed.
+
+Lemma new_nodes n0 ls k :
+  used (wrun (winit n0) ls) = Some k ->
+  exists pre u t, fans (wrun (winit n0) ls) = pre ++ [(u, k, t)] /\
+    forall n, In n (nodes (wrun (winit n0) ls)) -> In n t \/ born (wrun (winit n0) ls) n = Some k.
+Proof.
+  intros Hu. destruct (WInv_run ls (winit n0) (WInv_init n0)) as [_ H]. rewrite Hu in H. exact H.
+Qed.
+
+(* ---- trace acceptor --------------------------------------------------------------------------- *)
+
+Lemma acc_run_app a t1 t2 :
+  acc_run a (t1 ++ t2) = match acc_run a t1 with Some a' => acc_run a' t2 | None => None end.
+Proof.
+  revert a. induction t1 as [|e r IH]; intros a; cbn [app acc_run]; [reflexivity|].
+  destruct (acc_step a e); [apply IH|reflexivity].
+Qed.
+
+Lemma oname_eqb_eq a b : oname_eqb a b = true <-> a = b.
+Proof.
+  destruct a as [x|], b as [y|]; cbn [oname_eqb]; try (split; [discriminate|discriminate]); try (split; reflexivity).
+  rewrite name_eqb_eq. split; [intros ->; reflexivity|intros H; injection H as ->; reflexivity].
+Qed.
+
+(* the ids in flight are the pending calls *)
+Lemma inflight_pending t : forall a a' p,
+  acc_run a t = Some a' -> map fst (inflight a) = p ->
+  map fst (inflight a') = pending_calls t p.
+Proof.
+  induction t as [|e r IH]; intros a a' p Hr Hp; cbn [acc_run pending_calls] in *.
+  - injection Hr as <-. exact Hp.
+  - destruct (acc_step a e) as [a1|] eqn:E; [|discriminate].
+    destruct e as [u k|u ok|q|q x]; cbn [acc_step] in E.
+    + injection E as <-. apply (IH _ _ _ Hr). cbn [inflight map fst]. rewrite map_map. cbn [fst]. 
+      f_equal. rewrite <- Hp. apply map_ext. intros; reflexivity.
+    + destruct (lookup_u u (inflight a)) as [[k clean]|]; [|discriminate].
+      assert (Hf : map fst (filter (fun x => negb (Nat.eqb (fst x) u)) (inflight a)) =
+                   filter (fun x => negb (Nat.eqb x u)) p).
+      { rewrite <- Hp. clear. induction (inflight a) as [|y l IHl]; [reflexivity|].
+        cbn [filter map]. destruct (negb (Nat.eqb (fst y) u)); cbn [map]; rewrite IHl; reflexivity. }
+      destruct (ok && clean); injection E as <-; apply (IH _ _ _ Hr); exact Hf.
+    + injection E as <-. apply (IH _ _ _ Hr). exact Hp.
+    + destruct (lookup_q q (open a)); [|discriminate]. destruct (omem x l); [|discriminate].
+      injection E as <-. apply (IH _ _ _ Hr). exact Hp.
+Qed.
+
+(* no call is in flight and none starts: nothing changes but the open requests *)
+Lemma quiet_run t : forall a a',
+  no_call t = true -> inflight a = [] -> acc_run a t = Some a' ->
+  base a' = base a /\ inflight a' = [].
+Proof.
+  induction t as [|e r IH]; intros a a' Hn Hi Hr; cbn [acc_run no_call forallb] in *.
+  - injection Hr as <-. split; [reflexivity|exact Hi].
+  - apply andb_true_iff in Hn. destruct Hn as [He Hn].
+    destruct (acc_step a e) as [a1|] eqn:E; [|discriminate].
+    destruct e as [u k|u ok|q|q x]; cbn [acc_step is_call negb] in *; try discriminate.
+    + rewrite Hi in E. discriminate.
+    + injection E as <-. refine (IH _ a' Hn _ Hr). exact Hi.
+    + destruct (lookup_q q (open a)); [|discriminate]. destruct (omem x l); [|discriminate].
+      injection E as <-. apply (IH _ _ Hn Hi Hr).
+Qed.
+
+(* one clean call is in flight, none starts, and the call returns successfully at the end *)
+Lemma clean_run t : forall a u k (b : bool),
+  no_call t = true -> inflight a = [(u, (k, true))] ->
+  forall a', acc_run a (t ++ [ERet u true]) = Some a' ->
+  base a' = [Some (canon k)] /\ inflight a' = [].
+Proof.
+  induction t as [|e r IH]; intros a u k b Hn Hi a' Hr.
+  - cbn [app acc_run acc_step] in Hr. rewrite Hi in Hr. cbn [lookup_u] in Hr. rewrite Nat.eqb_refl in Hr.
+    cbn [andb filter fst negb] in Hr. rewrite Nat.eqb_refl in Hr. cbn [negb] in Hr. injection Hr as <-.
+    split; reflexivity.
+  - cbn [no_call forallb] in Hn. apply andb_true_iff in Hn. destruct Hn as [He Hn].
+    cbn [app acc_run] in Hr. destruct (acc_step a e) as [a1|] eqn:E; [|discriminate].
+    destruct e as [u' k'|u' ok|q|q x]; cbn [acc_step is_call negb] in *; try discriminate.
+    + rewrite Hi in E. cbn [lookup_u] in E. destruct (Nat.eqb u' u) eqn:Eq; [|discriminate].
+      apply Nat.eqb_eq in Eq. subst u'.
+      (* the call returned already: the final return is rejected *)
+      exfalso. cbn [filter fst] in E. rewrite Nat.eqb_refl in E. cbn [negb] in E.
+      assert (Hi1 : inflight a1 = []) by (destruct (ok && true); injection E as <-; reflexivity).
+      rewrite acc_run_app in Hr. destruct (acc_run a1 r) as [a2|] eqn:R; [|discriminate].
+      destruct (quiet_run r a1 a2 Hn Hi1 R) as [_ Hi2].
+      cbn [acc_run acc_step] in Hr. rewrite Hi2 in Hr. discriminate.
+    + injection E as <-. refine (IH _ u k b Hn _ a' Hr). exact Hi.
+    + destruct (lookup_q q (open a)); [|discriminate]. destruct (omem x l); [|discriminate].
+      injection E as <-. apply (IH _ u k b Hn Hi a' Hr).
+Qed.
+
+(* the allowed set of an open request does not change while no call starts and it is not restarted *)
+Lemma open_run t q : forall a a' al,
+  no_call t = true -> forallb (fun e => negb (starts q e)) t = true ->
+  lookup_q q (open a) = Some al -> acc_run a t = Some a' ->
+  lookup_q q (open a') = Some al.
+Proof.
+  induction t as [|e r IH]; intros a a' al Hn Hs Hl Hr; cbn [acc_run no_call forallb] in *.
+  - injection Hr as <-. exact Hl.
+  - apply andb_true_iff in Hn. destruct Hn as [He Hn]. apply andb_true_iff in Hs. destruct Hs as [Hse Hs].
+    destruct (acc_step a e) as [a1|] eqn:E; [|discriminate].
+    destruct e as [u k|u ok|q' |q' x]; cbn [acc_step is_call negb starts] in *; try discriminate.
+    + destruct (lookup_u u (inflight a)) as [[k clean]|]; [|discriminate].
+      destruct (ok && clean); injection E as <-; (refine (IH _ a' al Hn Hs _ Hr); exact Hl).
+    + injection E as <-. refine (IH _ a' al Hn Hs _ Hr). cbn [open lookup_q].
+      apply negb_true_iff in Hse. rewrite Hse. exact Hl.
+    + destruct (lookup_q q' (open a)); [|discriminate]. destruct (omem x l); [|discriminate].
+      injection E as <-. apply (IH _ _ _ Hn Hs Hl Hr).
+Qed.
+
+Lemma accept_sound k0 t1 u k t2 t3 q t4 x t5 :
+  accept_trace k0 (t1 ++ ECall u k :: t2 ++ ERet u true :: t3 ++ EStart q :: t4 ++ EFrame q x :: t5) = true ->
+  pending_calls t1 [] = [] ->
+  no_call t2 = true -> no_call t3 = true -> no_call t4 = true ->
+  forallb (fun e => negb (starts q e)) t4 = true ->
+  x = Some (canon k).
+Proof.
+  unfold accept_trace. intros H Hp H2 H3 H4 Hq.
+  rewrite acc_run_app in H. destruct (acc_run (acc_init k0) t1) as [a1|] eqn:R1; [|discriminate].
+  assert (Hi1 : inflight a1 = []).
+  { pose proof (inflight_pending t1 _ _ [] R1 eq_refl) as Hm. rewrite Hp in Hm.
+    destruct (inflight a1); [reflexivity|discriminate]. }
+  cbn [acc_run acc_step] in H. rewrite Hi1 in H. cbn [map] in H.
+  set (a2 := mkAcc (Some (canon k) :: base a1) [(u, (k, true))]
+                   (map (fun qa => (fst qa, Some (canon k) :: snd qa)) (open a1))) in *.
+  change (t2 ++ ERet u true :: t3 ++ EStart q :: t4 ++ EFrame q x :: t5)
+    with (t2 ++ [ERet u true] ++ (t3 ++ EStart q :: t4 ++ EFrame q x :: t5)) in H.
+  rewrite app_assoc, acc_run_app in H.
+  destruct (acc_run a2 (t2 ++ [ERet u true])) as [a3|] eqn:R2; [|discriminate].
+  destruct (clean_run t2 a2 u k true H2 eq_refl a3 R2) as [Hb3 Hi3].
+  rewrite acc_run_app in H. destruct (acc_run a3 t3) as [a4|] eqn:R3; [|discriminate].
+  destruct (quiet_run t3 a3 a4 H3 Hi3 R3) as [Hb4 Hi4].
+  cbn [acc_run acc_step] in H.
+  set (a5 := mkAcc (base a4) (inflight a4) ((q, base a4) :: open a4)) in *.
+  rewrite acc_run_app in H. destruct (acc_run a5 t4) as [a6|] eqn:R4; [|discriminate].
+  assert (Hl : lookup_q q (open a6) = Some [Some (canon k)]).
+  { apply (open_run t4 q a5 a6 _ H4 Hq); [|exact R4]. subst a5. cbn [open lookup_q].
+    rewrite Nat.eqb_refl. rewrite Hb4, Hb3. reflexivity. }
+  cbn [acc_run acc_step] in H. rewrite Hl in H. cbn [omem existsb] in H.
+  destruct (oname_eqb x (Some (canon k))) eqn:E; [apply oname_eqb_eq in E; exact E|].
+  cbn [orb] in H. discriminate.
+Qed.
+
+(* ====================================================================================== *)
+(* 4. the statements used by Props/C20.v                                                  *)
+(* ====================================================================================== *)
+
+Lemma statement_ok k : valid_name (fst k) ->
+  parse_use (use_statement k) = Some k /\
+  forall c, In c (use_statement k) -> In c alphabet \/ c = 32%N \/ c = dquote.
+Proof. intros H. split; [exact (parse_use_statement k H)|intros c; exact (use_statement_chars k c H)]. Qed.
+
+Lemma GT_reachable k0 s : reachable k0 s -> GInv s /\ TInv s.
+Proof.
+  intros [ls Hr]. apply (run_inv (fun s => GInv s /\ TInv s) (fun _ => true)) with (ls := ls) (s := init k0).
+  - intros s0 l s1 [G T] _ H. split; [eapply GInv_step; eassumption|eapply TInv_step; eassumption].
+  - apply forallb_forall. reflexivity.
+  - split; [apply GInv_init|apply TInv_init].
+  - exact Hr.
+Qed.
+
+Lemma N_reachable k0 s : (forall k, k0 = Some k -> valid_name (fst k)) -> reachable k0 s -> NInv s.
+Proof.
+  intros Hk [ls Hr]. apply (run_inv NInv (fun _ => true)) with (ls := ls) (s := init k0).
+  - intros s0 l s1 N _ H. eapply NInv_step; eassumption.
+  - apply forallb_forall. reflexivity.
+  - apply NInv_init. exact Hk.
+  - exact Hr.
+Qed.
+
+(* no live connection is visible to requests without having been told about the current keyspace *)
+Lemma pool_inv k0 s k c :
+  reachable k0 s -> cur s = Some k -> ph s c = InPool -> alive s c = true ->
+  In k (told s c) \/
+  (exists r u, cur_uid s = Some u /\ In r (pending s) /\ uid r = u /\ uks r = k /\
+               In c (cov r) /\ stat r c = NotSent) \/
+  (exists u, cur_uid s = Some u /\ In (u, PAErr) (log s)).
+Proof. intros R. destruct (GT_reachable k0 s R) as [_ T]. apply (t_main s T). Qed.
+
+(* a connection on which the keyspace is being set has been sent that USE and is not visible *)
+Lemma setting_told k0 s k c : reachable k0 s -> ph s c = Setting k -> In k (told s c).
+Proof. intros R. destruct (GT_reachable k0 s R) as [_ T]. apply (t_set s T). Qed.
+
+(* everything ever sent is the statement of a valid name *)
+Lemma told_valid k0 s k c :
+  (forall k, k0 = Some k -> valid_name (fst k)) -> reachable k0 s ->
+  In k (told s c) -> valid_name (fst k) /\ parse_use (use_statement k) = Some k.
+Proof.
+  intros Hk R Hin. pose proof (n_told s (N_reachable k0 s Hk R) c k Hin) as Hv.
+  split; [exact Hv|apply parse_use_statement, Hv].
+Qed.
+
+(* an invalid name changes nothing: no statement is built, nothing is sent *)
+Lemma use_rejected s raw cs : ~ valid_name raw -> step s (UseKeyspace raw cs) = Some s.
+Proof.
+  intros H. cbn [step]. unfold make_verified. destruct (verify_name raw) as [[]|e] eqn:E; [|reflexivity].
+  apply verify_name_ok_iff in E. contradiction.
+Qed.
